@@ -12,1149 +12,2566 @@ Definition show_fres (r : fres) : string :=
   end.
 Definition check (rs : list rune) : string := digest (show_fres (format_res rs)).
 Definition full (rs : list rune) : string := show_fres (format_res rs).
-Eval vm_compute in ("<<<M89>>>" ++ check (runes_of_ascii "packet
-x
-    // `tick` ""quote"" 'q'
-    { len// c
-{// " ++ [27880; 37322]%N ++ runes_of_ascii "
-repeat
-i32	crc `say ""hi""` , match
-    chars as Packet
-{ 0123456789//	t
-: Pad 0123456789 :
-falsey
-    // " ++ [27880; 37322]%N ++ runes_of_ascii "
-    [
-4294967296
-    , 3
-    ,
-4294967296 , 0, ""1"" ] :roots,
-""a\\""
-:
-_x 3
-    : packetx } , repeat string
-    stringy `tab	here`
-,  match roots as lengthOf{
-""abc"" //	t
-:
-packetx , } // packet A { u8 x, }
-, } ,@lengthOf( chars )match  rootA
-    // trailing space 
-    as roots{
-""\n"" //
-:
-    Packet ,} , // `tick` ""quote"" 'q'
-string As `" ++ [28040; 24687; 31867; 22411]%N ++ runes_of_ascii "` , @rightPad (
-'\x00' ) int64 trueish @lengthOf( lengthOf )  `" ++ [233]%N ++ runes_of_ascii "` , } packet	len {	} options
-    {a1
-    // packet A { u8 x, }
-    = false
-    // a // b
-    }packet Z9_{ repeat zchar[ 00
-]  options1
-    //x
-    ,	@lengthOf( falsey ) repeat//	t
-i8 options1 `two words`
-, @rightPad//
-() i8 msg_type, char[3]
-lengthOf `{ , }`	,  string _x,@leftPad (
-) // c
-uint16	chars,
-// @lengthOf(
-//
-@lengthOf(
-crc
-    )@leftPad
-    (
+Eval vm_compute in ("<<<M138>>>" ++ check (runes_of_ascii "// @lengthOf(
+packet
     // " ++ [128512]%N ++ runes_of_ascii " emoji
-    '0' ) repeat
-stringy calculatedFrom , string
-// " ++ [27880; 37322]%N ++ runes_of_ascii "
-//
-int `line1
-line2`, @rightPad
-( ' '
-    ) match Foo as
-    rootA //x
-{ [ ""packet"", ""a\""b"", """ ++ [128512]%N ++ runes_of_ascii """
-    ,""""	,
-    42 ] : u
-// a // b
-// packet A { u8 x, }
-,
-0 // " ++ [27880; 37322]%N ++ runes_of_ascii "
-:	A
-    , // trailing space 
-00
-:
-asx
-//x
+    charz { BodyLength@lengthOf( o
+    ) ,
+    @calculatedFrom( // @lengthOf(
+""a\\"") match i64_ as a1 {
+    // a // b
+    [
 // trailing space 
-0 :  x_y_z
-    ,
-""CRC32"" : i64_
-, 42 : x
-// c
-// " ++ [128512]%N ++ runes_of_ascii " emoji
-, } , roots{ repeat zchar[10 ] stringy `" ++ [28040; 24687; 31867; 22411]%N ++ runes_of_ascii "` ,	} , } MetaData
-    // `tick` ""quote"" 'q'
-    tag{ f32 tag
-    ``, }
-")).
-Eval vm_compute in ("<<<M118>>>" ++ check (runes_of_ascii "
-packet // c
-zchar { i8 uint8x//
-`a\`,
-    match
-leftPad as matchKey
+// 50% %s
+7
 // a // b
-// @lengthOf(
-{  007
-    :f32a  ,
-7// " ++ [27880; 37322]%N ++ runes_of_ascii "
-: // " ++ [128512]%N ++ runes_of_ascii " emoji
-falsey ,3
-:_x	, [ ""1"" ] : u8x ,
-    //	t
-    ""it's""
-: i8i8 ,
-    10 :pack , } , repeat string
-rootA`say ""hi""`, repeat
-int32 repeatCount `" ++ [233]%N ++ runes_of_ascii "` , @lengthOf( calculatedFrom)
-zchar[// @lengthOf(
-4294967296 ]
-// @lengthOf(
-// packet A { u8 x, }
-T ,
-    @tag(
-4294967296 )
-crc @calculatedFrom( // packet A { u8 x, }
-"""" )
-, @calculatedFrom(""abc"")u8x	@lengthOf( o) `crlf
-line`, }packet
-//
 // c
-T { i64 repeatCount ,
-    calculatedFrom pack
+,4294967296
+] : Header
+, [ 0 ,4294967296
+,10 , 007 , //	t
+007, 1 , ""1""
 ,
-@calculatedFrom( ""`tick`"" // packet A { u8 x, }
-)
-    f32a Foo
-, match body as string_ {  ""packet"":	uint8x // " ++ [128512]%N ++ runes_of_ascii " emoji
-,// @lengthOf(
-""" ++ [128512]%N ++ runes_of_ascii """ /// triple
-: body, 007	:
-Logon, ""it's"" // a // b
-:leftPad
-    ,
-[ ""x y"" ,
-255 , ""\" ++ [233]%N ++ runes_of_ascii """,
-1 //
-, 0123456789]: options1 ,} , @rightPad ( '\x00'	)
+""`tick`""	]:	Packet
+    3 :
+    MetaDataX 3 :
+T } ,
+    @calculatedFrom( """"  ) @calculatedFrom(""CRC32"" ) int16 lengthOf@calculatedFrom(""x y""),
+    float64
     // packet A { u8 x, }
-    match
-//	t
-// @lengthOf(
-As as
-    roots { 4294967296 :len """ ++ [28040; 24687]%N ++ runes_of_ascii """ :msg_type
-, } ,
-    f32 chars ,
-// `tick` ""quote"" 'q'
-// @lengthOf(
-repeat calculatedFrom , @calculatedFrom( ""x y"" ) f32
-roots
-// `tick` ""quote"" 'q'
-//x
-`{ , }` , } root packet calculatedFrom{ }
-")).
-Eval vm_compute in ("<<<M1123>>>" ++ check (runes_of_ascii "// top
-root
-    // c0
-packet
-    // c1
-msg_type
-    // c2
-{
-    // c3
-i64
-    // c4
-options1
-    // c5
-,
-    // c6
-@lengthOf(
-    // c7
-f32a
-    // c8
-)
-    // c9
-repeat
-    // c10
-uint16
-    // c11
-Foo
-    // c12
-,
-    // c13
-@calculatedFrom(
-    // c14
-""x y""
-    // c15
-)
-    // c16
-repeat
-    // c17
-int64
-    // c18
-pack
-    // c19
-,
-    // c20
-@leftPad
-    // c21
-(
-    // c22
-' '
-    // c23
-)
-    // c24
-uint8
-    // c25
-Foo
-    // c26
-,
-    // c27
-}
-    // c28
-packet
-    // c29
-rootA
-    // c30
-{
-    // c31
-f32a
-    // c32
-x
-    // c33
-`two words`
-    // c34
-,
-    // c35
-char
-    // c36
-asx
-    // c37
-@lengthOf(
-    // c38
-falsey
-    // c39
-)
-    // c40
-`u8 x,`
-    // c41
-,
-    // c42
-@lengthOf(
-    // c43
-i64_
-    // c44
-)
-    // c45
-uint16
-    // c46
-chars
-    // c47
-,
-    // c48
-@tag(
-    // c49
-0
-    // c50
-)
-    // c51
-string
-    // c52
+    stringy
+@calculatedFrom( ""// no comment"" ) `line1
+line2`, falsey repeatCount`
+`	,
+    //	t
+    repeat float64 trueish ,/// triple
 _x
-    // c53
-@calculatedFrom(
-    // c54
-""abc""
-    // c55
+    @lengthOf(
+stringy
+    ) `tab	here` , @lengthOf(
+    matchKey
 )
-    // c56
-`// not a comment`
-    // c57
-,
-    // c58
-}
-    // c59
-")).
-Eval vm_compute in ("<<<M1178>>>" ++ check (runes_of_ascii "// top
-options
-    // c0
-{
-    // c1
-chars
-    // c2
-=
-    // c3
-""a\\""
-    // c4
-}
-    // c5
-packet
-    // c6
-Z9_
-    // c7
-{
-    // c8
-match
-    // c9
-BodyLength
-    // c10
-as
-    // c11
-roots
-    // c12
-{
-    // c13
-""" ++ [28040; 24687]%N ++ runes_of_ascii """
-    // c14
-:
-    // c15
-falsey
-    // c16
-,
-    // c17
-00
-    // c18
-:
-    // c19
-u128
-    // c20
-0
-    // c21
-:
-    // c22
-len
-    // c23
-,
-    // c24
-007
-    // c25
-:
-    // c26
-f32a
-    // c27
-}
-    // c28
-,
-    // c29
-@tag(
-    // c30
-3
-    // c31
-)
-    // c32
-@calculatedFrom(
-    // c33
-""`tick`""
-    // c34
-)
-    // c35
 @leftPad
-    // c36
-(
-    // c37
-' '
-    // c38
-)
-    // c39
-string
-    // c40
-asx
-    // c41
-,
-    // c42
-string
-    // c43
-u
-    // c44
-@lengthOf(
-    // c45
-options1
-    // c46
-)
-    // c47
-,
-    // c48
-float32
-    // c49
-i64_
-    // c50
-@calculatedFrom(
-    // c51
-""a\""b""
-    // c52
-)
-    // c53
-,
-    // c54
-}
-    // c55
-")).
-Eval vm_compute in ("<<<M1881>>>" ++ check (runes_of_ascii "  packet
-
-    A 
-{ repeat o	Z9_,@calculatedFrom( """ ++ [233]%N ++ runes_of_ascii "t" ++ [233]%N ++ runes_of_ascii """  )
-    @calculatedFrom(	""a\\"" 
-)
-@tag( 42
-	)
-
-match
-
-    Header
-
-    as  
-      // packet A { u8 x, }
-
-  tag
-	{	""`tick`"" 
-:	As
-    ,
-	[
-""\" ++ [233]%N ++ runes_of_ascii """
-    ]	:asx [  3,
-
-""1"" ,  ""\n""	,
-
-    007,
-	""\n""  ] 
-:  options1	""abc""
-    : 
-    //	t
-	/// triple
-  falsey
-    ,
-    4294967296
-
-    : metadata 
-,	}
-
-    , @tag(  4294967296
-
-    )
-tag
-    @calculatedFrom(  """ ++ [128512]%N ++ runes_of_ascii """
-),  }
-        // `tick` ""quote"" 'q'
-    	packet stringy
-
-    { 
-char[]packetx	`
-`
-,string
-	leftPad  @lengthOf( float
-)
-, @tag(	//	t
-65535) @lengthOf(
-packetx	)
-
-@lengthOf(	Pad
-)
-        // trailing space 
-// " ++ [27880; 37322]%N ++ runes_of_ascii "
-  repeatCount  BodyLength ,	// a // b
-	char[] 
-A
-
-@lengthOf(	// packet A { u8 x, }
-	a1  )  `two words`, }
-
-packet  falsey// " ++ [27880; 37322]%N ++ runes_of_ascii "
-  { } ")).
-Eval vm_compute in ("<<<M97>>>" ++ check (runes_of_ascii "options
-// trailing space 
-// " ++ [27880; 37322]%N ++ runes_of_ascii "
-{Foo=
-""it's"" lengthOf = int8 falsey /// triple
-= 7 ;a1
-= false
-; } MetaData repeatCount
-//x
-//x
-{ T
-    repeatCount,
-    u8x msg_type `// not a comment`
-    ,
-    repeatCount T	, } packet repeatCount{  @tag( 007 ) i64_ As	,
-}
-root packet	packetx{
-    string
-//	t
-// " ++ [128512]%N ++ runes_of_ascii " emoji
-T @calculatedFrom(""{,}""//
-)
-    , repeat zchar[
-    4294967296
-    ] x  , @tag(
-42 ) @lengthOf( lengthOf
-)/// triple
-@calculatedFrom( ""`tick`""	)repeat u16 u128 `say ""hi""` // trailing space 
-, // trailing space 
-@rightPad ( ) @tag( 255 )
-repeat uint8x Logon
-    // packet A { u8 x, }
-    ,
-    repeat zchar[ 007 ]Logon`a\`
-    ,@rightPad(
-    // `tick` ""quote"" 'q'
-    '0' ) // @lengthOf(
-string
-falsey ,
-}
-")).
-Eval vm_compute in ("<<<M1912>>>" ++ check (runes_of_ascii "packet A {
-    repeat o Z9_,
-    @calculatedFrom(""" ++ [233]%N ++ runes_of_ascii "t" ++ [233]%N ++ runes_of_ascii """)
-    @calculatedFrom(""a\\"")
-    @tag(42)
-    match Header as tag {
-        ""`tick`"" : As,
-        [""\" ++ [233]%N ++ runes_of_ascii """] : asx,
-        [3, ""1"", ""\n"", 007, ""\n""] : options1,
-        ""abc"" : falsey,
-        4294967296 : metadata,
-    },
-    @tag(4294967296)
-    tag @calculatedFrom(""" ++ [128512]%N ++ runes_of_ascii """),
-}
-
-// `tick` ""quote"" 'q'
-packet stringy {
-    char[] packetx `
-        `,
-    string leftPad @lengthOf(float),
-    @tag(65535)
-    @lengthOf(packetx)
-    @lengthOf(Pad)
-    // trailing space 
-    // " ++ [27880; 37322]%N ++ runes_of_ascii "
-    repeatCount BodyLength,// a // b
-    char[] A @lengthOf(a1) `two words`,
-}
-
-packet falsey {
-}")).
-Eval vm_compute in ("<<<M1999>>>" ++ check (runes_of_ascii "packet uint8x {
-    string_ {
-        repeat zchar {
-            // `tick` ""quote"" 'q'
-            //x
-            match u128 as A {
-                42 : pack,
-            },// " ++ [27880; 37322]%N ++ runes_of_ascii "
-            int64 u128,
-            repeatCount `it's`,
-            string asx @calculatedFrom(""a\""b""),
-        },
-        matchKey @calculatedFrom(""1""),
-    },
-    match o as Z9_ {
-        // a // b
-        [7] : uint8x,
-        [00, """ ++ [233]%N ++ runes_of_ascii "t" ++ [233]%N ++ runes_of_ascii """, ""\" ++ [233]%N ++ runes_of_ascii """] : Packet,
-        // a // b
-    },
-    f32 A,
-}
-
-root packet Foo {
-    repeat float32 msg_type,
-}")).
-Eval vm_compute in ("<<<M1463>>>" ++ check (runes_of_ascii "options
-
-{
-	LittleEndian
-=	false
-    ;
-
-    StringPrefixLenType=
-	u8; 
-ArrayPrefixLenType
-=
-u16
-
-;
-    FixedStringPadFromLeft  = false ;
-} packet	Heartbeat {
-u8
-
-seqNo
-
-    ,
-    @rightPad  (
-'\x00'
-
-    )
-
-char[
-
-    8
-] x ,
-    }
-
-    root
-packet 
-Trade	{ 
-repeat	Heartbeat
-
-    ,
-
-    float32  OrderId
-,
-i64 Acct  , 
-u16	Qty ,u16  clOrdID
-	,
-
-match
-	clOrdID	as
-	Body
-	{
-131	: Heartbeat ,
-},u16	sym@calculatedFrom(  ""CRC32""	)  , }")).
-Eval vm_compute in ("<<<M1386>>>" ++ check (runes_of_ascii "// top
-packet // c0a
-  // c0b
-A { // c2
-u8 // c3a
-  // c3b
-a
-    // c4
-, // c5
-} // c6a
-  // c6b
-packet B // c8a
-  // c8b
-{
-    // c9
-u16 b // c11
-, // c12a
-  // c12b
-} root // c14
-packet // c15
-P { // c17
-u8 // c18a
-  // c18b
-K , // c20
-match // c21
-K
-    // c22
-as // c23
-M { // c25
-1
-    // c26
-: // c27a
-  // c27b
-A // c28
-, 1 // c30
-: B // c32a
-  // c32b
-, // c33a
-  // c33b
-} // c34
-, // c35
-} ")).
-Eval vm_compute in ("<<<M1659>>>" ++ check (runes_of_ascii "packet u128 {
-    // c2
-    u8 a,// c5a
-    // c5b
-}// c6
-
-root packet Msg {
-    // c10
-    u8 k,// c13
-    u24 {
-        // c15
-        u8 Hi,// c18a
-        // c18b
-        u16 Lo,// c21
-    },// c23a
-    // c23b
-    repeat i24 {
-        // c26
-        u32 q,
-        // c29
-    },
-    u128,
-    // c33
-    u16 float32x,
-    string s,// c39a
-    // c39b
-}")).
-Eval vm_compute in ("<<<M199>>>" ++ check (runes_of_ascii "packet
-    body {
-@rightPad(	'0'	) Packet a1 ,asx ,repeatCount
-// trailing space 
-// packet A { u8 x, }
-{// trailing space 
-repeat int64 falsey , },	@rightPad
-// c
-// a // b
 ( '0'
-)	match int
+    ) @calculatedFrom( ""it's"") u8 metadata , uint8 //
+chars
+, }packet MetaDataX
+    { // packet A { u8 x, }
+@tag(
+65535)	repeat
     // " ++ [27880; 37322]%N ++ runes_of_ascii "
-    as T { 4294967296
-: _x, 00 :  string_// c
+    string_
+    a1 `{ , }` // " ++ [27880; 37322]%N ++ runes_of_ascii "
+,@leftPad (  ) @calculatedFrom(""\n"" ) @leftPad
+(
+    ) match T as packetx { ""1""
+: options1 ,} ,uint8 MetaDataX
+@lengthOf( roots )
+, @tag( 0123456789 ) body @calculatedFrom( ""packet""  )
+`u8 x,` ,
+    /// triple
+    } packet
+    zchar  {match len as calculatedFrom
+{ 4294967296: charz,[ 4294967296 //
+,""\" ++ [233]%N ++ runes_of_ascii """ ,10	,  1] : pack //	t
+, [// 50% %s
+0
+, 42 // @lengthOf(
+]
+// c
+// trailing space 
+: matchKey,	""{,}"" :
+i64_ , }
 ,
-    [""x y""  ] :  stringy, } ,// packet A { u8 x, }
-uint32 x_y_z
-,
-}")).
-Eval vm_compute in ("<<<M1677>>>" ++ check (runes_of_ascii "  packet
+    @tag( 42 ) uint64 trueish @calculatedFrom( ""`tick`""
+    ) ,@calculatedFrom( """ ++ [28040; 24687]%N ++ runes_of_ascii """ ) @rightPad( '0' ) u8 Foo
+    `line1
+line2` , match
+    /// triple
+    charz as
+    packetx{	4294967296 :// trailing space 
+float [007
+, ""a\""b"" // @lengthOf(
+]: u8x , 42
+    : options1 }	, // 50% %s
+stringy len ,
+    }
+    packet f32a { Packet
+@lengthOf(
+    u) ,
+@tag(3) body uint8x ,@lengthOf(metadata ) char[4294967296 ] zchar  ,
+    // packet A { u8 x, }
+    @tag(
+    007 )@tag( // 50% %s
+10 )  @tag( // trailing space 
+4294967296  )
+i32 asx
+, int16 x @calculatedFrom(
+""CRC32""	)
+    ,
+} packet u128{@calculatedFrom(""a\\"" )
+    @tag(
+1 ) @lengthOf( x)
+int64
+BodyLength @lengthOf(charz ) , @rightPad
+(
+'\x00' ) float
+    Pad
+    , @leftPad
+( '\x00' ) repeat i64 _x , } 	 ")).
+Eval vm_compute in ("<<<M4056>>>" ++ check (runes_of_ascii "  // `tick` ""quote"" 'q'
+    	options  {options1 =10  }	packet	packetx
 
-    P1{  u8 a, } packet
-    P2 { P1 ,
-}  packet P3
     {
 
-P2
-
-    ,
-P1	,	} 
-packet P4 
-{
-repeat
-P3
-    ,P2
-    ,
-	}
-root
-
-    packet
-P5 {
-
-P4
-, P3 , P1,
-
-    u8
-    K 
-,
+    @leftPad
+( ' '	) 
 match
-	K as
-Body
-	{
-    4
-	: 
-P4
-	, 3  :
-    P3
+x	as // trailing space 
+
+  body
+
+//	t
+  // trailing space 
+	{[65535 ]
+:
+
+Pad 
+    // a // b
+
+//x
+	, } 
+,@calculatedFrom(	""abc"" 
+    // trailing space 
+	) repeat
+
+    string
+    u
+
+    ,@lengthOf(
+
+tag
+) 
+trueish	As	,
+@lengthOf(  falsey )
+zchar[
+    1
+	]
+a1	,repeat 
+char[]packetx 
+  // " ++ [27880; 37322]%N ++ runes_of_ascii "
+      // trailing space 
+`a\`, uint64 rootA  @calculatedFrom(
+
+""a	b"")	`crlf
+line` ,
+
+string Packet
+`" ++ [28040; 24687; 31867; 22411]%N ++ runes_of_ascii "`,	uint8 tag 
+@lengthOf( o )
 ,
-2 :	P2	,  1
-    :  P1,
-
-    } 
-,  }
-")).
-Eval vm_compute in ("<<<M344>>>" ++ check (runes_of_ascii "packet
-chars {repeat float32  x_y_z
-    , @tag( 0123456789
-    )	char[
-255	] rootA `{ , }` , } options  { x= zchar[
-    00
-] ;
-Packet= '\x00' ; }
-    options{Z9_ =// packet A { u8 x, }
-""CRC32"" ;
-    As = // `tick` ""quote"" 'q'
-uint32 ; } // a // b")).
-Eval vm_compute in ("<<<M1533>>>" ++ check (runes_of_ascii "MetaData packetx {
-    packetx i64_ `say ""hi""`,
 }
 
-options {
-}
+packet Foo
 
-packet string_ {
-    @lengthOf(repeatCount)
-    len {
-        zchar[10] u128,
-        f32 falsey `say ""hi""`,
-        uint16 f32a `crlf
-        line`,
-    },
-}
-// " ++ [27880; 37322]%N)).
-Eval vm_compute in ("<<<M422>>>" ++ check (runes_of_ascii "options
-{
-matchKey = 42/// triple
-x='0' '0' ;
-// packet A { u8 x, }
-//
-charz
-=
-// packet A { u8 x, }
-// trailing space 
-true  ; } MetaData BodyLength
-{
-uint8
-pack,zchar[ 1]float ,  float32 x_y_z `` ,u32
-_x,i16 body  , }
-")).
-Eval vm_compute in ("<<<M542>>>" ++ check (runes_of_ascii "options
-{
-matchKey = 42/// triple
-x='0' ;
-// packet A { u8 x, }
-//
-charz
-=
-// packet A { u8 x, }
-// trailing space 
-true  ; } MetaData BodyLength
-{
-uint8
-pack,zchar[ 1]float ,  float32 x_y_z `` ,u32
-_x, ,i16 body  , }
-")).
-Eval vm_compute in ("<<<M408>>>" ++ check (runes_of_ascii "options
-{
-matchKey = x/// triple
-42='0' ;
-// packet A { u8 x, }
-//
-charz
-=
-// packet A { u8 x, }
-// trailing space 
-true  ; } MetaData BodyLength
-{
-uint8
-pack,zchar[ 1]float ,  float32 x_y_z `` ,u32
-_x,i16 body  , }
-")).
-Eval vm_compute in ("<<<M558>>>" ++ check (runes_of_ascii "options
-{
-matchKey = 42/// triple
-x='0' ;
-// packet A { u8 x, }
-//
-charz
-=
-// packet A { u8 x, }
-// trailing space 
-true  ; } MetaData BodyLength
-{
-uint8
-pack,zchar[ 1]float ,  float32 x_y_z `` ,u32
-_x,i16 body  } ,
-")).
-Eval vm_compute in ("<<<M441>>>" ++ check (runes_of_ascii "options
-{
-matchKey = 42/// triple
-x='0' ;
-// packet A { u8 x, }
-//
-charz
-=
-// packet A { u8 x, }
-// trailing space 
-  ; } MetaData BodyLength
-{
-uint8
-pack,zchar[ 1]float ,  float32 x_y_z `` ,u32
-_x,i16 body  , }
-")).
-Eval vm_compute in ("<<<M550>>>" ++ check (runes_of_ascii "options
-{
-matchKey = 42/// triple
-x='0' ;
-// packet A { u8 x, }
-//
-charz
-=
-// packet A { u8 x, }
-// trailing space 
-true  ; } MetaData BodyLength
-{
-uint8
-pack,zchar[ 1]float ,  float32 x_y_z `` ,u32
-_x,")).
-Eval vm_compute in ("<<<M696>>>" ++ check (runes_of_ascii "// c
-packet packet i64_ {	char[] calculatedFrom , } packet
-trueish  {@calculatedFrom(
-""a\\"" ) o { i32 falsey@lengthOf( uint8x ),
-} , } // `tick` ""quote"" 'q'
-options {// c
-Z9_ = ' '//
-}
-")).
-Eval vm_compute in ("<<<M719>>>" ++ check (runes_of_ascii "// c
-packet i64_ {	char[] calculatedFrom , } packet
-trueish  {@calculatedFrom(
-""a\\"" ) o { i32 falsey@lengthOf( uint8x ) ),
-} , } // `tick` ""quote"" 'q'
-options {// c
-Z9_ = ' '//
-}
-")).
-Eval vm_compute in ("<<<M708>>>" ++ check (runes_of_ascii "// c
-packet i64_ {	char[] calculatedFrom , } packet
-trueish  {@calculatedFrom(
-""a\\"" ) o { i32 falsey@lengthOf( uint8x ),
-} , } // `tick` ""quote"" 'q'
-options {// c
- = ' '//
-}
-")).
-Eval vm_compute in ("<<<M206>>>" ++ check (runes_of_ascii "options
-    {As
-=false	;
-}root packet calculatedFrom // a // b
-{ zchar[
-255 ] Z9_
-,  }  MetaData metadata{ int8 chars
-, char[]
-charz `two words` , char[ 0]
-rootA, }")).
-Eval vm_compute in ("<<<M567>>>" ++ check (runes_of_ascii "options
-{
-matchKey = 42/// triple
-x='0' ;
-// packet A { u8 x, }
-//
-charz
-=
-// packet A { u8 x, }
-// trailing space 
-true  ; } MetaData BodyLength
-{
-uin")).
-Eval vm_compute in ("<<<M1687>>>" ++ check (runes_of_ascii "root packet stringy {
-    @tag(7)
-    @tag(1)
-    @rightPad('\x00')
-    Foo x `crlf
-    line`,
-    @calculatedFrom(""a	b"")
-    roots `it's`,
-}")).
-Eval vm_compute in ("<<<M1930>>>" ++ check (runes_of_ascii "
+    {
+u64  u128
 
-  packet
-calculatedFrom  { 
-@tag(4294967296
+@lengthOf(
+u	)
+,@tag(00)	@lengthOf(  
+      //	t
+i8i8
+)@leftPad 
+( '0'
+
+) char[  1
+
+    ] calculatedFrom 
+@lengthOf( i64_) ,repeat u { matchKey 
+    //	t
+	//
+	,repeat
+Packet 
+  // trailing space 
+// " ++ [27880; 37322]%N ++ runes_of_ascii "
+    ,char[	10]
+    Z9_ // c
+@lengthOf(  
+      // trailing space 
+  	// @lengthOf(
+	MetaDataX
 
     )
+    `" ++ [233]%N ++ runes_of_ascii "`
 
-u 
-// c
-    msg_type
+    , 
+repeat	falsey
+{	zchar[ 0 ]  u8x	@lengthOf(
+    f32a)
+
 ,
-char[
-	3
+    string falsey `" ++ [28040; 24687; 31867; 22411]%N ++ runes_of_ascii "`,
+
+},  }
+    , charz
+
+`doc`
+
+    ,
+	@tag(10 )
+char[]u128@lengthOf(  rootA  ) 
+`doc`,
+
+}
+packet chars {
+uint8	Z9_
+    , //x
+	} packet len	// a // b
+  { @lengthOf(
+	tag)@tag( 0123456789
+
+    )	@lengthOf( repeatCount
+) _x
+{ x
+
+    Packet
+`line1
+line2` ,
+	match 
+
+// a // b
+    	// 50% %s
+  crc
+as
+
+    packetx {1
+
+    :
+body
+	,
+255 
+:  As	,	// " ++ [128512]%N ++ runes_of_ascii " emoji
+    ""a\""b""
+    :	As
+[
+007,
+	007
+
+]
+    : 
+  // a // b
+  // c
+    repeatCount
+	""" ++ [233]%N ++ runes_of_ascii "t" ++ [233]%N ++ runes_of_ascii """ :u8x // `tick` ""quote"" 'q'
+
+} 
+        // 50% %s
+    ,  // 50% %s
+uint64 leftPad
+@lengthOf(
+
+asx
+	) `` 
+, 
+zchar[
+007
+
+]string_
+
+    , }
+,
+    chars @lengthOf(
+    int	)  //	t
+  	`" ++ [28040; 24687; 31867; 22411]%N ++ runes_of_ascii "`	,
+}
+")).
+Eval vm_compute in ("<<<M526>>>" ++ check (runes_of_ascii "  root packet uint8x { match trueish
+    as body {  [ 007
+,
+    ""packet""
+] :
+    metadata 42 : metadata ,
+},}	MetaData
+roots { i64 // a // b
+MetaDataX `tab	here`
+, uint8 float ,char[ 42 ] u8x, i64
+a1, o
+//
+// @lengthOf(
+Pad
+`say ""hi""`,
+/// triple
+//x
+}  options{ Foo= true // @lengthOf(
+; f32a = // 50% %s
+""a	b""
+    //x
+    ;falsey// trailing space 
+= true
+    ;} packet float //x
+{ @calculatedFrom( // " ++ [128512]%N ++ runes_of_ascii " emoji
+""packet"" ) repeat len ,
+    lengthOf
+    BodyLength , @lengthOf(
+charz)
+@calculatedFrom(
+""{,}""  ) A ,
+//
+// packet A { u8 x, }
+@tag( 0123456789//	t
+)
+    crc//	t
+, zchar[1 ] leftPad `a\` , repeat
+    string i8i8	`100% of %d`
+    ,	char[] o`a\` // a // b
+, } packet // " ++ [128512]%N ++ runes_of_ascii " emoji
+Logon { @tag(  4294967296
+)
+@lengthOf( chars
+    )
+    repeat tag `100% of %d`,
+@leftPad
+( // @lengthOf(
+' ' )
+uint16 // " ++ [27880; 37322]%N ++ runes_of_ascii "
+falsey
+    `" ++ [233]%N ++ runes_of_ascii "` ,
+@tag( 10 ) leftPad {  int8 len`100% of %d` ,
+    Foo {
+char[] i8i8@lengthOf(
+    lengthOf), // " ++ [27880; 37322]%N ++ runes_of_ascii "
+uint8 options1// " ++ [128512]%N ++ runes_of_ascii " emoji
+,match matchKey
+as msg_type{ [ 10 , ""\n"" ]
+:
+    roots ,
+    [ 10 // 50% %s
+] :falsey
+, ""`tick`""
+:// c
+pack ,  0123456789 :
+tag
+,}
+    , //	t
+chars //	t
+@calculatedFrom( ""`tick`"" ) `line1
+line2`
+,}  , a1 `100% of %d`  ,	matchKey {
+x@calculatedFrom(
+""" ++ [233]%N ++ runes_of_ascii "t" ++ [233]%N ++ runes_of_ascii """ )	`{ , }`
+, match packetx as body {  65535:
+pack
+,},} // a // b
+,
+    } ,
+    @tag(1 )
+    msg_type @lengthOf( _x )
+    `u8 x,` , Logon `" ++ [28040; 24687; 31867; 22411]%N ++ runes_of_ascii "` , zchar[
+    42 ] f32a , @rightPad (	'\x00' ) u8 zchar
+,// a // b
+}
+")).
+Eval vm_compute in ("<<<M4427>>>" ++ check (runes_of_ascii "
+options
+{
+
+    charz
+
+    =  f64
+;}
+
+packet
+	int	{
+match
+
+    x_y_z  as  int{[
+""a\""b""	, // 50% %s
+	3, """ ++ [128512]%N ++ runes_of_ascii """
+    ]
+:  Foo,""\" ++ [233]%N ++ runes_of_ascii """: //x
+pack	, ""a	b"" :
+body
+    255
+
+: 
+pack ,65535:float  
+      // packet A { u8 x, }
+// 50% %s
+[""" ++ [128512]%N ++ runes_of_ascii """  ,	""""
+    ]
+	:leftPad}
+
+    ,u16 
+T
+@calculatedFrom(
+
+""\n""
+)
+	, @tag( 
+42
+
+    )
+repeat  int {
+repeat  u8	len
+
+, 
+char[ 00 // trailing space 
+	  ]
+options1
+`crlf
+line`  ,  } 
+, repeat i64
+charz
+    , @leftPad('0'
+    ) 
+@lengthOf(
+Header	) repeat	pack  MetaDataX  , @leftPad
+
+( ' ' )@lengthOf(
+
+float
+)
+	@tag( 65535 )
+repeat 
+      //
+	// c
+      int16
+    a1 ,
+repeat
+
+int
+    { match
+	repeatCount as	zchar	{ """ ++ [233]%N ++ runes_of_ascii "t" ++ [233]%N ++ runes_of_ascii """:  u8x
+    ,0
+	:charz	,[ 
+7 
+]
+
+:
+    chars
+
+    ,
+	[ ""a\""b""
+
+,
+3,
+3
+
+    ,  """",""a\""b""
+        // trailing space 
+    // 50% %s
+    ,
+
+""it's"",
+	7
+
+    ,007
+
+]:
+    msg_type
+
+    ,  
+      //	t
+} 
+	// a // b
+    	,
+	char[
+	255
+
     ]
 
-crc @lengthOf(
-	len ) `u8 x,`
-	, }
+    As	@calculatedFrom( 
+""1"" )	,}
 
-")).
-Eval vm_compute in ("<<<M1627>>>" ++ check (runes_of_ascii "packet A {
-    match k as n {
-        [
-            1, 22, 007, 4, 5,
-            66, 7
-        ] : B,
-        2 : C,
-    },
-}")).
-Eval vm_compute in ("<<<M657>>>" ++ check (runes_of_ascii "MetaData
-    // trailing space 
-    matchKey
-{ u64 chars // a //'1' b
-,char[] lengthOf `// not a comment`
-    , //	t
-}")).
-Eval vm_compute in ("<<<M969>>>" ++ check (runes_of_ascii "packet A {
-    match k as n {
-        ""x\
-y"" : B,
-        [""x\
-y"", 1] : C,
-        [1,2,3,4,5,""x\
-y""] : D,
-    },
-}")).
-Eval vm_compute in ("<<<M636>>>" ++ check (runes_of_ascii "MetaData
-    // trailing space 
-    matchKey
-{ u64 chars // a // b
-,char[] lengthOf `// not a comment`
-    , //	t
-")).
-Eval vm_compute in ("<<<M1727>>>" ++ check (runes_of_ascii "packet Pad {
-}
+    ,}
 
-packet options1 {
-    // trailing space 
-}
+packet
+pack 
+{  falsey
 
+    x
+
+,@tag(
+10
+)
+    string	i8i8
+@lengthOf(
+pack
+    )
+
+    ,
+	@leftPad	(
+    '0' )
+	repeat pack  `crlf
+line`	,
+
+    @calculatedFrom(  """ ++ [128512]%N ++ runes_of_ascii """ )  @rightPad (  )
+    i8i8
+@calculatedFrom(  ""`tick`""
+
+) , }  options 	 // `tick` ""quote"" 'q'
+  { 
+charz 
+=
+'\x00'	uint8x
+	=
+
+    '\x00';
+	As
+	='0' }")).
+Eval vm_compute in ("<<<M1150>>>" ++ check (runes_of_ascii "root packet
+// packet A { u8 x, }
+// trailing space 
+T
+    { u64
+int , match rootA  as BodyLength{ ""it's"" :o
+// c
+// packet A { u8 x, }
+, 10
+: int
+    ,
+""packet"":  string_ , [// `tick` ""quote"" 'q'
+""abc""
+,  3  ,
+    0123456789
+    // packet A { u8 x, }
+    , // " ++ [27880; 37322]%N ++ runes_of_ascii "
+007
+,
+    7 ,  3  , 007 ]
+// 50% %s
+// `tick` ""quote"" 'q'
+: int ,} , match	i64_ as options1
+{ 0123456789 :// packet A { u8 x, }
+zchar , 00
+    :
+pack ,}
+,  match zchar as
+options1 {""it's""
+    : matchKey , ""1""// " ++ [128512]%N ++ runes_of_ascii " emoji
+:u128 // packet A { u8 x, }
+, // `tick` ""quote"" 'q'
+""`tick`"" :trueish 255
+//x
+// " ++ [128512]%N ++ runes_of_ascii " emoji
+: crc
+,
+// `tick` ""quote"" 'q'
 // @lengthOf(
-root packet crc {
-    repeat crc len,
-}")).
-Eval vm_compute in ("<<<M222>>>" ++ check (runes_of_ascii "MetaData float { }  options {
-msg_type=""a	b""
-    i8i8	= true stringy = ""CRC32""
-    } options { len
-= ""\" ++ [233]%N ++ runes_of_ascii """ }")).
-Eval vm_compute in ("<<<M1530>>>" ++ check (runes_of_ascii "MetaData Pad {
-    int64 roots,
-    body u128,
-    float64 x,
-    int32 chars,
-    A options1 `
-    `,
-}")).
-Eval vm_compute in ("<<<M1277>>>" ++ check (runes_of_ascii "packet calculatedFrom { @tag( 4294967296 ) u msg_type , char[ 3 ] crc // c
-@lengthOf( len ) `u8 x,` , }")).
-Eval vm_compute in ("<<<M1877>>>" ++ check (runes_of_ascii "packet o {
-    @tag(42)
-    repeat x {
-        char[0123456789] i64_,
+},
+    // trailing space 
+    } packet
+//
+//	t
+Z9_{@leftPad ('\x00' ) repeat
+    float32 Packet , @lengthOf( x )
+string u
+,@calculatedFrom( ""\" ++ [233]%N ++ runes_of_ascii """ )
+    zchar[65535 ] As @lengthOf( BodyLength
+/// triple
+// " ++ [128512]%N ++ runes_of_ascii " emoji
+)
+, string
+leftPad @calculatedFrom(	""a\\"" )	, @rightPad('\x00') // c
+rootA
+{ repeat
+Packet// trailing space 
+{
+char[10 ]	matchKey `crlf
+line`
+    ,
+    // a // b
+    } ,
+} ,match Packet as uint8x{255: roots, [ 42
+, 3, ""\" ++ [233]%N ++ runes_of_ascii """
+    ] :repeatCount
+}
+, repeat _x`two words`
+, } MetaData tag
+// " ++ [128512]%N ++ runes_of_ascii " emoji
+// " ++ [27880; 37322]%N ++ runes_of_ascii "
+{
+Pad Header // packet A { u8 x, }
+,
+}
+")).
+Eval vm_compute in ("<<<M4529>>>" ++ check (runes_of_ascii "packet	//
+
+	u {
+	i8i8
+@lengthOf(  rootA
+
+    ) `// not a comment` , @calculatedFrom(
+""" ++ [28040; 24687]%N ++ runes_of_ascii """  )
+    @tag( 
+0123456789 )@tag(  7
+
+    )tag @calculatedFrom( ""`tick`"" 
+) `u8 x,`  // packet A { u8 x, }
+  	, match string_
+	as
+
+    Pad
+    {
+    ""\" ++ [233]%N ++ runes_of_ascii """
+    :	u 
+    // 50% %s
+	  // a // b
+
+""`tick`"" :
+leftPad
+, 255	:  metadata
+,
+    //x
+	// `tick` ""quote"" 'q'
+  10 :  Header  ,	10 : 
+msg_type // " ++ [27880; 37322]%N ++ runes_of_ascii "
+    	,
+    [""// no comment""
+	,
+
+""""
+,	""x y"" ,	0,
+	""// no comment""
+]: float
+
+    ,
+	}	, @calculatedFrom(
+""""
+
+)
+
+    @calculatedFrom(	""{,}"" )
+Header { 
+uint64
+pack`" ++ [28040; 24687; 31867; 22411]%N ++ runes_of_ascii "` ,
+	leftPad { zchar[  007]
+	trueish
+    @lengthOf(
+BodyLength	)
+, repeat
+
+lengthOf `
+`  , // trailing space 
+match Foo
+	as	Pad
+{
+	""\n""
+:
+lengthOf 
+[
+""abc""
+,
+	""1"" 
+]
+
+:
+	metadata
+	, // packet A { u8 x, }
+  65535
+:
+    zchar
+[ 
+""abc"" 
+,42  ] : 
+string_ // c
+    ""1"": falsey
+,} ,
+
+char[ 65535]
+
+o ,
+}
+
+, }
+
+,	}options
+	    //	t
+{	// a // b
+lengthOf
+    =
+
+    true // @lengthOf(
+
+;rootA
+	=true	repeatCount  =  '\x00' 
+A
+
+    =false
+	}
+    options
+	{u=
+
+    ""packet""	// " ++ [27880; 37322]%N ++ runes_of_ascii "
+    }options
+    { repeatCount=
+
+    ""// no comment"" ;}
+")).
+Eval vm_compute in ("<<<M55>>>" ++ check (runes_of_ascii "root
+packet matchKey {zchar[
+    007 ] u8x, @lengthOf( u8x )@tag(
+255 )repeat u
+    a1
+,  char[ 42]
+    string_`line1
+line2` ,@calculatedFrom(	""x y""
+)repeat crc {	match metadata as crc
+    { 0: chars , """ ++ [233]%N ++ runes_of_ascii "t" ++ [233]%N ++ runes_of_ascii """ : As , 10
+: matchKey , ""CRC32"":asx // `tick` ""quote"" 'q'
+,	[  ""CRC32"" ]	:charz ,4294967296 // " ++ [27880; 37322]%N ++ runes_of_ascii "
+:rootA
+,
+}
+, } , repeat MetaDataX i64_
+/// triple
+// packet A { u8 x, }
+, matchKey@calculatedFrom( ""`tick`"") `100% of %d`, @tag(
+    65535 )match charz as // a // b
+T { 0123456789:
+i8i8
+3 : a1  7
+:a1
+    // @lengthOf(
+    , [ ""x y"" , ""x y"" ] :
+    a1
+    ,""CRC32"" :
+    crc }//
+, i32 BodyLength `// not a comment` , @calculatedFrom( ""{,}"") @lengthOf( chars )
+@tag(7 )
+asx o
+, @tag( 4294967296 ) Packet ,
+}
+    root  packet x_y_z{ @calculatedFrom(
+    ""a\\"" )
+    @tag( 42 ) // `tick` ""quote"" 'q'
+u8x @calculatedFrom(""it's"" ), match x
+    as  matchKey
+    // trailing space 
+    { // a // b
+4294967296 :uint8x	,
+3 :u8x
+    // @lengthOf(
+    ,""CRC32"" :x , /// triple
+1
+    : Z9_ , 1 : options1 ,
+""it's"": int },u  ,
+char[]
+BodyLength, }")).
+Eval vm_compute in ("<<<M4392>>>" ++ check (runes_of_ascii "packet Z9_ {
+    repeatCount {
+        match Packet as pack {
+            [""" ++ [128512]%N ++ runes_of_ascii """] : Header,
+            65535 : trueish,
+        },
+        len,//	t
+        pack @calculatedFrom(""x y""),
     },
+    char[0123456789] x,
+    // a // b
+    // " ++ [27880; 37322]%N ++ runes_of_ascii "
+}
+
+packet Packet {
+    uint16 msg_type @calculatedFrom(""" ++ [128512]%N ++ runes_of_ascii """),
+    f32 crc @lengthOf(repeatCount) `// not a comment`,
+    u32 i64_,
+    @tag(0123456789)
+    asx {
+        asx {
+            repeat zchar repeatCount `a\`,
+            // " ++ [27880; 37322]%N ++ runes_of_ascii "
+            // @lengthOf(
+            Logon,
+            match calculatedFrom as crc {
+                // packet A { u8 x, }
+                // a // b
+                """ ++ [28040; 24687]%N ++ runes_of_ascii """ : MetaDataX,
+                3 : len,
+                [""1""] : zchar,
+                0 : f32a,
+                // `tick` ""quote"" 'q'
+            },
+        },
+        char[1] pack,
+        string uint8x @calculatedFrom(""it's"") `line1
+                line2`,
+    },
+}// " ++ [128512]%N ++ runes_of_ascii " emoji
+
+MetaData Foo {
+    // " ++ [27880; 37322]%N ++ runes_of_ascii "
+    //	t
+}// 50% %s")).
+Eval vm_compute in ("<<<M3553>>>" ++ check (runes_of_ascii "// top
+options // c0a
+  // c0b
+{
+    // c1
+LittleEndian = false // c4
+; StringPrefixLenType // c6
+= u16 ; ArrayPrefixLenType
+    // c10
+= // c11
+u32 // c12a
+  // c12b
+; // c13
+FixedStringPadFromLeft // c14a
+  // c14b
+= true ; // c17a
+  // c17b
+FixedStringPadChar // c18a
+  // c18b
+= // c19a
+  // c19b
+'0' ; // c21
+} // c22a
+  // c22b
+packet Quote
+    // c24
+{ // c25
+repeat
+    // c26
+InSide284 {
+    // c28
+repeat // c29a
+  // c29b
+string Acct
+    // c31
+, // c32a
+  // c32b
+int64 OrderId , // c35
+} // c36
+,
+    // c37
+uint8
+    // c38
+Px // c39a
+  // c39b
+, // c40
+int32 // c41a
+  // c41b
+lastPx
+    // c42
+, uint8 Flags
+    // c45
+, // c46a
+  // c46b
+} packet Fill { // c50a
+  // c50b
+f32 // c51a
+  // c51b
+clOrdID // c52
+,
+    // c53
+uint32 // c54
+msgKind
+    // c55
+, // c56a
+  // c56b
+repeat Quote // c58
+, } // c60
+root
+    // c61
+packet Trade // c63a
+  // c63b
+{ // c64a
+  // c64b
+string
+    // c65
+Acct // c66
+, } ")).
+Eval vm_compute in ("<<<M4293>>>" ++ check (runes_of_ascii "root packet int {
+    uint64 BodyLength `{ , }`,
+}
+
+packet uint8x {
+    repeat stringy,
+}
+
+root packet zchar {
+    string Pad @calculatedFrom(""it's"") `crlf
+    line`,
+}
+
+/// triple
+// packet A { u8 x, }
+options {
+}
+
+root packet Packet {
+    repeat a1 `{ , }`,
+    @calculatedFrom(""" ++ [28040; 24687]%N ++ runes_of_ascii """)
+    char calculatedFrom,
+    zchar[00] string_,
+    @calculatedFrom(""CRC32"")
+    repeat char[3] o `// not a comment`,
+    i64 u128,
+    i16 packetx @lengthOf(falsey) ``,
+    @leftPad('\x00')
+    // @lengthOf(
+    float64 stringy `" ++ [28040; 24687; 31867; 22411]%N ++ runes_of_ascii "`,
+    @tag(10)
     // c
+    // @lengthOf(
+    @calculatedFrom(""\" ++ [233]%N ++ runes_of_ascii """)
+    @leftPad(' ')
+    i32 MetaDataX `" ++ [28040; 24687; 31867; 22411]%N ++ runes_of_ascii "`,
+    a1 {
+        match stringy as Logon {
+            ""\" ++ [233]%N ++ runes_of_ascii """ : T,
+            42 : int,
+            [""\" ++ [233]%N ++ runes_of_ascii """] : Foo,
+            00 : pack,
+            // @lengthOf(
+            3 : float,
+            // c
+            """ ++ [128512]%N ++ runes_of_ascii """ : float,
+        },
+    },
+}")).
+Eval vm_compute in ("<<<M336>>>" ++ check (runes_of_ascii "
+root packet chars
+    {match
+i64_
+    as	MetaDataX{ 007
+: float
+, // trailing space 
+""a\\"" : leftPad[ 255,
+    ""x y""
+    ,
+// `tick` ""quote"" 'q'
+// @lengthOf(
+4294967296,0
+, 3 ] :Packet, [""" ++ [128512]%N ++ runes_of_ascii """ //	t
+]	:
+body ,	""" ++ [28040; 24687]%N ++ runes_of_ascii """ :
+    // " ++ [128512]%N ++ runes_of_ascii " emoji
+    Z9_ , }  , @calculatedFrom( ""abc""  )@rightPad ('0'  )
+match
+Z9_ as u128
+{
+    255 :
+Header } , repeat zchar[ 255 ] leftPad ,
+@tag( 255 )u8 zchar`a\` , }packet	As { @tag( 00 ) MetaDataX BodyLength  ,
+    i64 trueish	,repeat o {
+    i8
+// packet A { u8 x, }
+// trailing space 
+options1 @lengthOf( BodyLength ) ,
+    } // " ++ [27880; 37322]%N ++ runes_of_ascii "
+, @lengthOf( Z9_ )
+    @rightPad// 50% %s
+() @calculatedFrom( ""packet"" )float @lengthOf( x ) `line1
+line2` ,
+    }
+    /// triple
+    root packet T //x
+{
+    crc`" ++ [233]%N ++ runes_of_ascii "` ,
+    match	options1 as x{ 7 :  int , """" : calculatedFrom ,	[
+""it's""]	: packetx 7 : u128 , } ,repeat crc
+    , }
+")).
+Eval vm_compute in ("<<<M1186>>>" ++ check (runes_of_ascii "//x
+packet
+float { uint8 calculatedFrom `tab	here`
+    , }
+root packet Packet { /// triple
+match calculatedFrom as leftPad { """ ++ [28040; 24687]%N ++ runes_of_ascii """ :
+u ,
+} , match chars//	t
+as
+int {
+""x y"": trueish
+,
+    // @lengthOf(
+    65535
+// `tick` ""quote"" 'q'
+//	t
+: asx[ 1 ,
+    3
+    , 007 ,7
+    , ""it's"" ] :
+// trailing space 
+//
+calculatedFrom ,
+},
+    uint16 options1 @lengthOf( a1
+    ) ,
+    u64
+    asx/// triple
+@calculatedFrom( ""abc"" ) , }
+packet leftPad{float32
+packetx
+    //x
+    @lengthOf( Packet
+),
+// @lengthOf(
+/// triple
+@tag( 00 )@leftPad
+//x
+// packet A { u8 x, }
+( '\x00'
+    ) @calculatedFrom(
+""" ++ [128512]%N ++ runes_of_ascii """ )  Packet
+{ // `tick` ""quote"" 'q'
+uint16 x_y_z@calculatedFrom(  ""{,}"" ) , } , repeat rootA { zchar[ 0] i64_ , i8	Logon
+@lengthOf( asx ) , } ,
+    match	msg_type
+as leftPad {
+[
+    """ ++ [28040; 24687]%N ++ runes_of_ascii """
+]
+    : Z9_ , },	}")).
+Eval vm_compute in ("<<<M917>>>" ++ check (runes_of_ascii "
+options // " ++ [128512]%N ++ runes_of_ascii " emoji
+{	} root packet Header
+{
+    i64
+    crc	`" ++ [28040; 24687; 31867; 22411]%N ++ runes_of_ascii "`  , zchar[ 3 ]
+chars,	}
+packet
+tag
+{ match
+leftPad as	_x {
+    // c
+    255 :  BodyLength ,
+    } // 50% %s
+,tag , // " ++ [128512]%N ++ runes_of_ascii " emoji
+i32 trueish `
+`, }
+packet rootA {
+    repeat
+i64 Packet
+`u8 x,`, @lengthOf( BodyLength  )
+    char[ 42 ] int @lengthOf( // " ++ [27880; 37322]%N ++ runes_of_ascii "
+lengthOf) `" ++ [233]%N ++ runes_of_ascii "` ,
+@tag( 1
+    )calculatedFrom
+,zchar[255 ] packetx , chars{ char[]trueish
+    ,
+    // 50% %s
+    }
+// " ++ [128512]%N ++ runes_of_ascii " emoji
+// packet A { u8 x, }
+, zchar f32a ,
+    roots x_y_z,	match body as	f32a // trailing space 
+{ [255,10 // a // b
+] :
+BodyLength
+, ""// no comment"" /// triple
+: packetx ,
+[ ""{,}"",65535
+    ,4294967296
+    , 255 // a // b
+, 7, ""{,}""
+    , //x
+"""" , 0
+] : uint8x 255  : trueish , 7:
+u128 //x
+,0123456789 :
+    asx ,
+} , }")).
+Eval vm_compute in ("<<<M3544>>>" ++ check (runes_of_ascii "options { 
+StringPrefixLenType
+=
+u16 
+; ArrayPrefixLenType= u32; FixedStringPadChar
+
+=
+    '0';
+}
+packet
+Ack
+
+{
+zchar[ 9
+]
+Ref ,	repeat
+u64
+Flags
+,
+char[
+9
+    ]
+	lastPx,char[]
+
+Tail 
+, }
+
+packet
+
+Logon 
+{ Ack ,
+    repeat
+	InSide298 {repeat  Ack ,
+
+    u8 clOrdID  ,  repeat InNote61	{
+zchar[
+4
+]  tag7 ,
+    float32
+    clOrdID 
+,
+int16
+	Note
+, char[]  Acct ,
+	uint16
+Side2 ,	string
+    OrderId
+,
+    },
+	} , u16 price
+,
+
+uint8	Acct
+,
+	i32 
+tag7	,@rightPad( '0'
+	) char[5
+    ]lastPx  , } packet Cancel	{ u16 
+seqNo
+	,  } packet Leg	{repeat Ack
+	, 
+repeat
+InNote13
+
+{
+
+int32
+
+seqNo	,
+Ack  ,	}  ,} packet 
+Quote 
+{string
+OrderId
+, }
+	root 
+packet
+	Trade{repeat
+
+InAcct24 
+{
+float64 msgKind ,	} ,
+
+    }
+")).
+Eval vm_compute in ("<<<M952>>>" ++ check (runes_of_ascii "packet o {
+}
+    options
+{
+    }root packet matchKey{ // trailing space 
+uint32 stringy , int64 msg_type @calculatedFrom(""" ++ [233]%N ++ runes_of_ascii "t" ++ [233]%N ++ runes_of_ascii """ ) `{ , }`
+    , repeat Logon {repeat roots Header`two words` , u16 falsey`// not a comment`
+    ,
+} ,tag@calculatedFrom( ""CRC32""
+    // a // b
+    ) `crlf
+line` //x
+, char[] Pad `100% of %d`// @lengthOf(
+,
+    match Header as falsey
+{""" ++ [28040; 24687]%N ++ runes_of_ascii """: string_ ,// a // b
+7  : x_y_z
+/// triple
+// a // b
+, [""`tick`"" ,""`tick`"",  0123456789 // `tick` ""quote"" 'q'
+,
+    65535 ,7
+    , 65535
+    , ""abc"" ]
+    // trailing space 
+    :
+    MetaDataX } , i64_ crc ,	}  options
+    {
+zchar =
+char[ 4294967296 ] //
+; leftPad
+=
+0123456789
+;trueish =""""
+//x
+//	t
+Logon= '\x00'; }")).
+Eval vm_compute in ("<<<M1178>>>" ++ check (runes_of_ascii "packet MetaDataX// trailing space 
+{ o , @lengthOf( packetx ) o @lengthOf(packetx ) `
+`	,
+repeat
+options1{ // `tick` ""quote"" 'q'
+float64// @lengthOf(
+o `doc`
+    , }
+, char[] //x
+MetaDataX
+    `a\` ,
+u8
+charz`line1
+line2` , tag {
+string metadata
+`tab	here` , zchar[1 ] charz `two words`	,
+    }, repeat
+u
+    `two words` , repeat MetaDataX { trueish i64_`// not a comment`
+    // trailing space 
+    ,
+repeat
+    //	t
+    len ,
+repeat Packet
+// packet A { u8 x, }
+// @lengthOf(
+, }
+    // 50% %s
+    ,
+    match uint8x as T	{ [ ""1""	,	""x y"" , 65535 ] :
+    uint8x , 00
+: Packet
+    //
+    , """" :calculatedFrom , """"
+: chars  ,
+0	:
+lengthOf} , } // @lengthOf(")).
+Eval vm_compute in ("<<<M4440>>>" ++ check (runes_of_ascii "MetaData Packet {
+}
+
+packet stringy {
+    zchar[00] tag @lengthOf(u) `it's`,
+    repeat char[255] Foo `line1
+    line2`,
+    @tag(0123456789)
+    a1 @lengthOf(Header),
+    @rightPad('\x00')
+    match MetaDataX as u128 {
+        // 50% %s
+        [""" ++ [28040; 24687]%N ++ runes_of_ascii """] : calculatedFrom,
+        0123456789 : _x,
+        ""1"" : u,
+        [""" ++ [28040; 24687]%N ++ runes_of_ascii """, ""`tick`""] : int,
+        ""\n"" : x,
+        7 : asx,
+    },
+    As crc `doc`,
+    @lengthOf(charz)
+    uint8x chars,
+    /// triple
 }
 
 options {
+    i64_ = zchar[007];
+    pack = 42;// 50% %s
+    tag = 42;
+}
+
+options {
+    metadata = zchar[65535];
+    a1 = '0';
+    roots = 00
+    o = 42
+    Pad = false;
 }")).
-Eval vm_compute in ("<<<M1356>>>" ++ check (runes_of_ascii "packet B {
-    u8 a,
-    string s,
+Eval vm_compute in ("<<<M1268>>>" ++ check (runes_of_ascii "packet i8i8
+{chars{ repeat tag, zchar[ 00 ] options1
+, repeat charz , char[] float
+,
 }
-root packet P {
-    u16 L @lengthOf(B),
-    B,
-    u8 t,
+,@tag(
+    10 )	@leftPad ( '\x00' )  @rightPad
+(
+)calculatedFrom @calculatedFrom(  ""{,}"" ) `100% of %d` , // a // b
+uint16 repeatCount@lengthOf(
+    x_y_z
+    // trailing space 
+    )
+    ,
+// trailing space 
+// c
+stringy , uint8	Pad @lengthOf(Packet
+)  , u8 matchKey //x
+, }
+options { tag
+=
+    zchar[ 42 ]}
+    packet  x_y_z// packet A { u8 x, }
+{
+}  packet Packet {
+u
+    @calculatedFrom(
+""it's"" )
+`
+`, i32 float// " ++ [128512]%N ++ runes_of_ascii " emoji
+@calculatedFrom( """ ++ [128512]%N ++ runes_of_ascii """ // `tick` ""quote"" 'q'
+), u128 `two words` ,
+} // `tick` ""quote"" 'q'")).
+Eval vm_compute in ("<<<M705>>>" ++ check (runes_of_ascii "
+packet
+asx// trailing space 
+{ int64 rootA , }options
+    { Packet= true; uint8x = //	t
+zchar[00
+    ] ; //x
+int
+/// triple
+//x
+=
+true
+    Pad =
+    1 ; }root packet T
+//x
+// packet A { u8 x, }
+{ @lengthOf(  Logon )@rightPad	(
+'\x00' )
+@lengthOf( a1// a // b
+) match  crc as// trailing space 
+T{ [ """ ++ [128512]%N ++ runes_of_ascii """ ]
+: charz
+,""x y"" :
+// @lengthOf(
+// @lengthOf(
+crc ,
+0123456789 : BodyLength  [ 0123456789
+    ,
+""x y""	]
+: // packet A { u8 x, }
+f32a // trailing space 
+, [ 0, 65535
+// a // b
+// " ++ [27880; 37322]%N ++ runes_of_ascii "
+]
+:
+    a1
+    // " ++ [128512]%N ++ runes_of_ascii " emoji
+    ,
+    ""{,}"" :	A
+    // packet A { u8 x, }
+    } , }
+")).
+Eval vm_compute in ("<<<M3886>>>" ++ check (runes_of_ascii "packet Z9_ {
+    roots @lengthOf(x_y_z) `tab	here`,
+    match u as i64_ {
+        007 : a1,
+        1 : asx,
+        [
+            ""`tick`"", ""abc"", ""it's"", 42, """ ++ [233]%N ++ runes_of_ascii "t" ++ [233]%N ++ runes_of_ascii """,
+            ""it's"", """"
+        ] : u128,
+        // packet A { u8 x, }
+        1 : Logon,
+    },
+}
+
+packet Pad {
+    //x
+    @calculatedFrom(""`tick`"")
+    u32 A @calculatedFrom(""x y"") `two words`,
+    @tag(007)
+    @lengthOf(Pad)
+    repeat asx,
+    @lengthOf(Logon)
+    @calculatedFrom(""{,}"")
+    @calculatedFrom(""abc"")
+    u128,
+    zchar[0] options1 `" ++ [28040; 24687; 31867; 22411]%N ++ runes_of_ascii "`,
+}
+
+packet MetaDataX {
+}")).
+Eval vm_compute in ("<<<M969>>>" ++ check (runes_of_ascii "
+root packet Foo
+    { options1,
+match
+BodyLength as float {
+7 : MetaDataX ,007 : int
+    ,
+    } , @calculatedFrom( ""abc"" ) repeat int16 A`say ""hi""` , @tag(
+    3
+    )
+    uint8 u128 @lengthOf( len
+)`100% of %d` ,@rightPad
+    // 50% %s
+    ( ' ' )
+    T { //
+match string_
+as As
+{ ""x y"" : Header
+,
+}, x_y_z	{uint32
+// " ++ [27880; 37322]%N ++ runes_of_ascii "
+// c
+int
+``  , },
+    } , _x
+    x_y_z `line1
+line2` ,  @rightPad ()  repeat string
+// 50% %s
+// c
+pack
+// a // b
+// trailing space 
+`it's` ,  string // a // b
+o @calculatedFrom( """")`tab	here`
+    , } // " ++ [27880; 37322]%N)).
+Eval vm_compute in ("<<<M357>>>" ++ check (runes_of_ascii "packet  rootA {repeat matchKey {
+    A
+calculatedFrom
+    `" ++ [233]%N ++ runes_of_ascii "` ,
+} //	t
+,
+f32 int, @calculatedFrom( ""\" ++ [233]%N ++ runes_of_ascii """ )match // a // b
+options1 as
+// " ++ [27880; 37322]%N ++ runes_of_ascii "
+// trailing space 
+i8i8 {	""// no comment"" :float, 0123456789 :
+    // trailing space 
+    calculatedFrom , // packet A { u8 x, }
+4294967296 :
+calculatedFrom
+}, @calculatedFrom(""a\\"") charz {	repeat
+lengthOf,
+char[ 42 ] Header
+    , } , } root
+// packet A { u8 x, }
+// trailing space 
+packet
+// a // b
+//	t
+packetx {
+char[//	t
+65535
+]zchar@lengthOf( x_y_z)`two words`  ,}")).
+Eval vm_compute in ("<<<M1088>>>" ++ check (runes_of_ascii "packet body
+{
+repeat
+msg_type{ len //x
+`" ++ [233]%N ++ runes_of_ascii "`, roots
+@calculatedFrom(
+    // a // b
+    ""// no comment"" )
+`it's`,match o as u
+    {
+3: int}, u32 msg_type `doc`, // `tick` ""quote"" 'q'
+} , repeat zchar[ 4294967296] asx `u8 x,` ,
+// " ++ [27880; 37322]%N ++ runes_of_ascii "
+//x
+char[]	As
+    @calculatedFrom( """ ++ [28040; 24687]%N ++ runes_of_ascii """ )
+, // a // b
+zchar[007 ]
+    metadata `tab	here` , int16 As,	} packet Pad  { A{
+    zchar[ 10
+]As	@calculatedFrom(
+    ""a\""b""
+    ), // 50% %s
+repeat u8 o
+,
+    } , } packet	rootA
+    {repeat _x	msg_type	, }
+
+")).
+Eval vm_compute in ("<<<M967>>>" ++ check (runes_of_ascii "packet u	{ zchar[ 255 ] //
+Header
+    // 50% %s
+    @lengthOf( //
+matchKey
+    ) `doc` , repeat i8 leftPad `a\` ,
+    Packet
+    @lengthOf(
+    u128 ) `u8 x,`, options1// " ++ [128512]%N ++ runes_of_ascii " emoji
+i8i8 ,u16
+    zchar
+// trailing space 
+/// triple
+`u8 x,` , @rightPad
+(
+    ) // trailing space 
+x_y_z asx
+    , float32
+charz , } MetaData
+    int {i16 string_ // c
+,
+i8 uint8x/// triple
+`it's`,
+    trueish u128 , a1 i64_ `tab	here`
+, uint32 A	`" ++ [233]%N ++ runes_of_ascii "` , }
+// packet A { u8 x, }
+")).
+Eval vm_compute in ("<<<M3903>>>" ++ check (runes_of_ascii "MetaData uint8x {
+    uint8 u,
+    int16 packetx,
+    char[7] metadata `line1
+        line2`,
+    char[] i8i8 `crlf
+        line`,
+}
+
+packet u {
+    string x_y_z,
+    repeat Foo asx,
+    trueish {
+        u @lengthOf(calculatedFrom),
+        i8i8 {
+            repeat char[65535] Logon,
+        },
+        char[] o,
+        f64 repeatCount `
+                `,
+    },
+    packetx u128,
+}
+
+options {
+    roots = false;
+    trueish = char[1];
+}")).
+Eval vm_compute in ("<<<M858>>>" ++ check (runes_of_ascii "MetaData
+Logon { x MetaDataX `u8 x,`
+    , //	t
+}// `tick` ""quote"" 'q'
+options { msg_type
+    //	t
+    =""it's"";matchKey = f64  ; _x
+=
+255
+    ;}	MetaData body  {BodyLength //
+rootA ,char a1
+    , zchar[
+0  ]
+_x`100% of %d` , zchar[ // a // b
+00
+] A `u8 x,` // " ++ [27880; 37322]%N ++ runes_of_ascii "
+, } options
+// a // b
+// c
+{
+Foo
+// c
+// 50% %s
+=
+    0123456789;
+    Foo  =// `tick` ""quote"" 'q'
+true
+; trueish = ' '; //x
+options1
+    = ""a\\"" } // @lengthOf(")).
+Eval vm_compute in ("<<<M4001>>>" ++ check (runes_of_ascii "packet o {
+    match matchKey as chars {
+        10 : MetaDataX,
+        """ ++ [233]%N ++ runes_of_ascii "t" ++ [233]%N ++ runes_of_ascii """ : x,
+        ""it's"" : trueish,
+        4294967296 : i64_,
+    },
+    i16 u8x @lengthOf(zchar),
+    @lengthOf(len)
+    //	t
+    @tag(4294967296)
+    // a // b
+    _x @calculatedFrom(""abc""),
+}
+
+root packet matchKey {
+    // packet A { u8 x, }
+    /// triple
+    repeat stringy u8x,
+}
+
+packet BodyLength {
+    metadata @lengthOf(rootA),
+}")).
+Eval vm_compute in ("<<<M3932>>>" ++ check (runes_of_ascii "options {
+    packetx = 0
+    metadata = char[0123456789]
+    As = 42;
+    msg_type = '0';
+}
+
+options {
+    body = ""packet"";
+    metadata = false;
+    chars = 42
+    falsey = 42
+}
+
+packet body {
+    @leftPad('\x00')
+    leftPad @lengthOf(repeatCount),
+}
+
+MetaData _x {
+    uint16 lengthOf `100% of %d`,
+    crc T,
+    uint32 Pad `
+    `,
+    u64 msg_type,
+    string_ u128,
+    zchar[4294967296] _x,
+}")).
+Eval vm_compute in ("<<<M4128>>>" ++ check (runes_of_ascii "MetaData asx	{
+	trueish
+	charz ,	}
+    packet
+
+rootA {
+    @tag(
+007 
+) @rightPad (  '\x00'	) asx	tag
+	`// not a comment`
+,@calculatedFrom(
+    ""\" ++ [233]%N ++ runes_of_ascii """//
+) 
+@leftPad
+('\x00')  int64 _x
+	`100% of %d`
+
+    ,
+	@tag(4294967296 )
+
+@tag(  
+      // " ++ [128512]%N ++ runes_of_ascii " emoji
+	/// triple
+
+3
+	)
+    Packet @calculatedFrom(
+
+    """ ++ [128512]%N ++ runes_of_ascii """
+)
+    `" ++ [233]%N ++ runes_of_ascii "`
+    //x
+	// @lengthOf(
+,repeat u32  o 
+`crlf
+line`
+
+,
 }
 ")).
-Eval vm_compute in ("<<<M1155>>>" ++ check (runes_of_ascii "packet Logon { @tag( 42 ) @rightPad ( ' ' ) @leftPad ( )
-// c
-repeat trueish { string T , } , }")).
-Eval vm_compute in ("<<<M267>>>" ++ check (runes_of_ascii "root packet repeatCount
-{ @lengthOf( Foo  ) @tag( 4294967296 )
-repeat f32	u8x
-    , }
-// c
+Eval vm_compute in ("<<<M1117>>>" ++ check (runes_of_ascii "root packet repeatCount { // @lengthOf(
+int32 u ,@tag( 0 )@leftPad( '\x00')
+//
+//x
+@leftPad (
+' ' )float packetx `u8 x,`, }
+    // c
+    packet u { match leftPad as int  {[
+""abc"" ] // `tick` ""quote"" 'q'
+:
+    // packet A { u8 x, }
+    trueish ,}
+    ,
+zchar[ 007 ]msg_type	`doc` ,
+    int ,// 50% %s
+@lengthOf(	chars
+    )repeat
+char[65535 ] // 50% %s
+stringy,
+}
 ")).
-Eval vm_compute in ("<<<M1661>>>" ++ check (runes_of_ascii "
-packet Inner
-
+Eval vm_compute in ("<<<M1213>>>" ++ check (runes_of_ascii "root packet len{repeat zchar[
+    65535] // a // b
+pack
+`" ++ [28040; 24687; 31867; 22411]%N ++ runes_of_ascii "` ,
+} MetaData u8x{	uint32 metadata `// not a comment`
+    // c
+    , // c
+} root
+    packet x_y_z
 {
-
-u8	a
-	,
-} root  packet	P
-
-{
-
-    Inner
-    ref_obj ,  u8 x
-    ,	}
+    repeat char[] A ,char chars
+    ,} packet	repeatCount { @tag(
+007)//	t
+f32a { repeat uint8
+uint8x ,}
+// " ++ [27880; 37322]%N ++ runes_of_ascii "
+//	t
+, i64 i64_  @calculatedFrom( ""abc"" ) `say ""hi""` , }MetaData
+Logon { } 	 ")).
+Eval vm_compute in ("<<<M63>>>" ++ check (runes_of_ascii "// c
+packet	a1 { @leftPad ( ' ' ) _x // " ++ [27880; 37322]%N ++ runes_of_ascii "
+string_ , @lengthOf(u8x) lengthOf `two words` ,
+//	t
+// " ++ [128512]%N ++ runes_of_ascii " emoji
+zchar{ // c
+match
+Packet as Packet {
+    """" :	asx }	, repeat char[] o`{ , }`,
+    // " ++ [27880; 37322]%N ++ runes_of_ascii "
+    As	@calculatedFrom( ""it's""
+), } , @calculatedFrom(
+""// no comment""
+) @rightPad ( ) uint16 packetx , float @calculatedFrom( """ ++ [28040; 24687]%N ++ runes_of_ascii """)
+,
+}
 ")).
-Eval vm_compute in ("<<<M1604>>>" ++ check (runes_of_ascii "packet A {
-    match k as n {
-        [1, 22, 007, 4, 5] : B,
-        2 : C,
+Eval vm_compute in ("<<<M3785>>>" ++ check (runes_of_ascii "packet // `tick` ""quote"" 'q'
+		calculatedFrom  
+  // 50% %s
+	//x
+    {
+
+@tag(
+    4294967296
+	// " ++ [27880; 37322]%N ++ runes_of_ascii "
+
+	/// triple
+)
+	@tag(
+//	t
+      65535
+    // 50% %s
+  // 50% %s
+) 
+@calculatedFrom(""" ++ [28040; 24687]%N ++ runes_of_ascii """  )u8
+
+    u128
+
+`tab	here` // `tick` ""quote"" 'q'
+,
+
+}
+    packet stringy {
+
+    @rightPad  (
+    )
+
+    chars ,  } options{  }")).
+Eval vm_compute in ("<<<M888>>>" ++ check (runes_of_ascii "packet  As // `tick` ""quote"" 'q'
+{	@tag(
+255 ) u8 Z9_`doc`,
+}
+packet u128  { } options
+{_x =  char[ 7 ];
+    string_
+//	t
+// a // b
+= 4294967296 ; falsey =
+    '0' ;  u	=
+    // c
+    i16}  root
+    packet calculatedFrom { u8x  { _x,int32 repeatCount ,	i64_ body , },o
+    trueish
+    //x
+    `{ , }`,}
+//	t
+")).
+Eval vm_compute in ("<<<M4463>>>" ++ check (runes_of_ascii "MetaData stringy {
+    zchar[7] x_y_z,
+    zchar[007] A,
+    string As `
+        `,
+}
+
+root packet tag {
+    @leftPad()
+    match _x as _x {
+        255 : chars,
+        10 : roots,
+        3 : Foo,
+        [""{,}"", ""packet""] : u,
+        //x
+        //
+        00 : x_y_z,
+        1 : i64_,
     },
 }")).
-Eval vm_compute in ("<<<M852>>>" ++ check (runes_of_ascii "packet A {
+Eval vm_compute in ("<<<M317>>>" ++ check (runes_of_ascii "packet charz
+    { @tag( 10 )	calculatedFrom// 50% %s
+@lengthOf(charz )
+`100% of %d`
+,  A@calculatedFrom(// a // b
+""\n"" )
+, zchar[7 ] Header ,
+repeat calculatedFrom`it's` , repeat options1 chars	`" ++ [233]%N ++ runes_of_ascii "`
+    ,T
+    calculatedFrom `tab	here` ,repeat uint8 x_y_z
+    `crlf
+line`  , crc float ,}")).
+Eval vm_compute in ("<<<M1917>>>" ++ check (runes_of_ascii "packet	packetx { // trailing space 
+x_y_z
+{
+string
+charz ,
+string x// @lengthOf(
+`two words`
+    ,  u8x { // `tick` ""quote"" 'q'
+charz charz `100% of %d` // packet A { u8 x, }
+,}// " ++ [27880; 37322]%N ++ runes_of_ascii "
+,} , }
+    // a // b
+    packet metadata {  @leftPad ( '0') repeat i32 options1 ,u64 uint8x , }
+")).
+Eval vm_compute in ("<<<M1882>>>" ++ check (runes_of_ascii "packet	packetx { // trailing space 
+x_y_z
+{
+string
+charz , ,
+string x// @lengthOf(
+`two words`
+    ,  u8x { // `tick` ""quote"" 'q'
+charz `100% of %d` // packet A { u8 x, }
+,}// " ++ [27880; 37322]%N ++ runes_of_ascii "
+,} , }
+    // a // b
+    packet metadata {  @leftPad ( '0') repeat i32 options1 ,u64 uint8x , }
+")).
+Eval vm_compute in ("<<<M1850>>>" ++ check (runes_of_ascii "packetx	packet { // trailing space 
+x_y_z
+{
+string
+charz ,
+string x// @lengthOf(
+`two words`
+    ,  u8x { // `tick` ""quote"" 'q'
+charz `100% of %d` // packet A { u8 x, }
+,}// " ++ [27880; 37322]%N ++ runes_of_ascii "
+,} , }
+    // a // b
+    packet metadata {  @leftPad ( '0') repeat i32 options1 ,u64 uint8x , }
+")).
+Eval vm_compute in ("<<<M1989>>>" ++ check (runes_of_ascii "packet	packetx { // trailing space 
+x_y_z
+{
+string
+charz ,
+string x// @lengthOf(
+`two words`
+    ,  u8x { // `tick` ""quote"" 'q'
+charz `100% of %d` // packet A { u8 x, }
+,}// " ++ [27880; 37322]%N ++ runes_of_ascii "
+,} , }
+    // a // b
+    packet metadata {  @leftPad ( '0'( repeat i32 options1 ,u64 uint8x , }
+")).
+Eval vm_compute in ("<<<M3806>>>" ++ check (runes_of_ascii "options {
+    LittleEndian = false;
+    StringPrefixLenType = u32;
+    ArrayPrefixLenType = u64;
+    FixedStringPadFromLeft = false;
+    FixedStringPadChar = '0';
+}
+
+packet Fill {
+    zchar[6] price,
+}
+
+root packet Quote {
+    Fill,
+    float32 count,
+    repeat f64 OrderId,
+}")).
+Eval vm_compute in ("<<<M1899>>>" ++ check (runes_of_ascii "packet	packetx { // trailing space 
+x_y_z
+{
+string
+charz ,
+string x// @lengthOf(
+zchar[
+    ,  u8x { // `tick` ""quote"" 'q'
+charz `100% of %d` // packet A { u8 x, }
+,}// " ++ [27880; 37322]%N ++ runes_of_ascii "
+,} , }
+    // a // b
+    packet metadata {  @leftPad ( '0') repeat i32 options1 ,u64 uint8x , }
+")).
+Eval vm_compute in ("<<<M2170>>>" ++ check (runes_of_ascii "packet// packet A { u8 x, }
+repeatCount	{// packet A { u8 x, }
+@leftPad ( '\x00'
+) repeat u8x MetaDataX `crlf
+line`,
+    repeat
+    char[] MetaDataX
+    ,
+u64	uint8x@calculatedFrom(""a\""b""
+// c
+// packet A { u8 x, }
+) `tab	here`
+,//
+}MetaData MetaData pack
+    {
+    }
+")).
+Eval vm_compute in ("<<<M3842>>>" ++ check (runes_of_ascii "packet calculatedFrom {
+    @calculatedFrom(""a\\"")
+    zchar[4294967296] calculatedFrom @lengthOf(pack) `100% of %d`,
+    char[] body @calculatedFrom(""// no comment""),
+    @tag(007)
+    //x
+    leftPad `it's`,
+    repeat pack {
+        repeat char[3] body,
+    },
+}")).
+Eval vm_compute in ("<<<M2150>>>" ++ check (runes_of_ascii "packet// packet A { u8 x, }
+repeatCount	{// packet A { u8 x, }
+@leftPad ( '\x00'
+) repeat u8x MetaDataX `crlf
+line`,
+    repeat
+    char[] MetaDataX
+    ,
+u64	uint8x@calculatedFrom(""a\""b""
+// c
+// packet A { u8 x, }
+) ) `tab	here`
+,//
+}MetaData pack
+    {
+    }
+")).
+Eval vm_compute in ("<<<M2062>>>" ++ check (runes_of_ascii "packet// packet A { u8 x, }
+repeatCount	T// packet A { u8 x, }
+@leftPad ( '\x00'
+) repeat u8x MetaDataX `crlf
+line`,
+    repeat
+    char[] MetaDataX
+    ,
+u64	uint8x@calculatedFrom(""a\""b""
+// c
+// packet A { u8 x, }
+) `tab	here`
+,//
+}MetaData pack
+    {
+    }
+")).
+Eval vm_compute in ("<<<M2059>>>" ++ check (runes_of_ascii "packet// packet A { u8 x, }
+repeatCount	// packet A { u8 x, }
+@leftPad ( '\x00'
+) repeat u8x MetaDataX `crlf
+line`,
+    repeat
+    char[] MetaDataX
+    ,
+u64	uint8x@calculatedFrom(""a\""b""
+// c
+// packet A { u8 x, }
+) `tab	here`
+,//
+}MetaData pack
+    {
+    }
+")).
+Eval vm_compute in ("<<<M791>>>" ++ check (runes_of_ascii "// a // b
+MetaData int{ u8 string_ `two words`
+,
+    //	t
+    i32
+    A `
+` , }
+    root
+packet rootA {
+@leftPad ( ) match x
+as falsey
+    { [	10	] : string_ 0123456789 :
+    //
+    uint8x  ,}, @tag(
+    // c
+    0)
+    x_y_z u , }root packet
+zchar {	}
+")).
+Eval vm_compute in ("<<<M1469>>>" ++ check (runes_of_ascii "packet calculatedFrom
+{ @calculatedFrom( ""a\\"" ) zchar[ 4294967296 ]
+calculatedFrom@lengthOf( pack pack )	`100% of %d` ,char[]body@calculatedFrom( ""// no comment"" )  ,
+@tag( 007) //x
+int8
+leftPad`it's` , repeat pack
+    { repeat char[ 3] body
+,},
+}")).
+Eval vm_compute in ("<<<M859>>>" ++ check (runes_of_ascii "MetaData asx{ BodyLength
+// a // b
+// trailing space 
+u8x
+`crlf
+line`, }	options
+{ u
+=
+'0'
+    /// triple
+    ;a1= uint8; T =""1""
+    } packet
+    //x
+    zchar
+{ u32 u128 `line1
+line2` , // c
+u16 o
+//x
+//
+@lengthOf( Z9_ )`line1
+line2`, }
+// " ++ [27880; 37322]%N ++ runes_of_ascii "
+")).
+Eval vm_compute in ("<<<M1506>>>" ++ check (runes_of_ascii "packet calculatedFrom
+{ @calculatedFrom( ""a\\"" ) zchar[ 4294967296 ]
+calculatedFrom@lengthOf( pack )	`100% of %d` ,char[]body@calculatedFrom( @calculatedFrom( )  ,
+@tag( 007) //x
+int8
+leftPad`it's` , repeat pack
+    { repeat char[ 3] body
+,},
+}")).
+Eval vm_compute in ("<<<M1475>>>" ++ check (runes_of_ascii "packet calculatedFrom
+{ @calculatedFrom( ""a\\"" ) zchar[ 4294967296 ]
+calculatedFrom@lengthOf( pack `100% of %d`	) ,char[]body@calculatedFrom( ""// no comment"" )  ,
+@tag( 007) //x
+int8
+leftPad`it's` , repeat pack
+    { repeat char[ 3] body
+,},
+}")).
+Eval vm_compute in ("<<<M1423>>>" ++ check (runes_of_ascii "packet calculatedFrom
+ @calculatedFrom( ""a\\"" ) zchar[ 4294967296 ]
+calculatedFrom@lengthOf( pack )	`100% of %d` ,char[]body@calculatedFrom( ""// no comment"" )  ,
+@tag( 007) //x
+int8
+leftPad`it's` , repeat pack
+    { repeat char[ 3] body
+,},
+}")).
+Eval vm_compute in ("<<<M1493>>>" ++ check (runes_of_ascii "packet calculatedFrom
+{ @calculatedFrom( ""a\\"" ) zchar[ 4294967296 ]
+calculatedFrom@lengthOf( pack )	`100% of %d` ,char[]@calculatedFrom( ""// no comment"" )  ,
+@tag( 007) //x
+int8
+leftPad`it's` , repeat pack
+    { repeat char[ 3] body
+,},
+}")).
+Eval vm_compute in ("<<<M546>>>" ++ check (runes_of_ascii "//	t
+options{charz
+= '0'falsey
+= '0' ;
+zchar = false
+    //
+    msg_type = zchar[00];} root
+    packet
+leftPad
+{ repeat f32a
+    `100% of %d`
+// `tick` ""quote"" 'q'
+// a // b
+, falsey ,f32 T @lengthOf(_x
+) , zchar[ 1 ]
+    Pad `" ++ [28040; 24687; 31867; 22411]%N ++ runes_of_ascii "`, }
+")).
+Eval vm_compute in ("<<<M904>>>" ++ check (runes_of_ascii "packet Pad //
+{
+    string_
+@lengthOf( charz ) `100% of %d` , crc	, match asx as i64_{ 3
+    : u128/// triple
+007 : u
+    , 0 :len[ 255// a // b
+, ""1""
+    // c
+    ] :
+BodyLength  , [ 65535 , 1 ]
+:MetaDataX
+,""a\""b"" : tag  , } , }
+")).
+Eval vm_compute in ("<<<M3689>>>" ++ check (runes_of_ascii "root packet len {
+    /// triple
+    @calculatedFrom(""`tick`"")
+    options1 repeatCount `crlf
+        line`,
+    @lengthOf(MetaDataX)
+    repeat _x u128,
+}
+
+packet uint8x {
+    @tag(1)
+    rootA,
+}// packet A { u8 x, }")).
+Eval vm_compute in ("<<<M3754>>>" ++ check (runes_of_ascii "MetaData asx {
+    BodyLength u8x `crlf
+    line`,
+}
+
+options {
+    u = '0';
+    a1 = uint8;
+    T = ""1""
+}
+
+packet zchar {
+    u32 u128 `line1
+    line2`,// c
+    u16 o @lengthOf(Z9_) `line1
+    line2`,
+}
+// " ++ [27880; 37322]%N)).
+Eval vm_compute in ("<<<M760>>>" ++ check (runes_of_ascii "MetaData Packet
+{}
+    packet
+    tag
+{ int16 u
+// c
+//	t
+`// not a comment`, } root// a // b
+packet Logon {	metadata
+    /// triple
+    stringy
+`" ++ [233]%N ++ runes_of_ascii "` ,rootA Pad,// c
+len @calculatedFrom(
+    """" ) , }
+
+")).
+Eval vm_compute in ("<<<M16>>>" ++ check (runes_of_ascii "  MetaData
+    f32a { string u128 ,  rootA chars
+`100% of %d` ,	len asx
+`// not a comment`
+    ,pack Header, packetx // trailing space 
+f32a , packetx i64_// 50% %s
+`" ++ [233]%N ++ runes_of_ascii "` // c
+, } options{ }
+")).
+Eval vm_compute in ("<<<M4017>>>" ++ check (runes_of_ascii "root packet Frame {
+    u8 K,
+    Logon first,
+    match K as Body {
+        1 : Logon,
+        2 : Logout,
+    },
+}
+
+packet Logon {
+    string user,
+}
+
+packet Logout {
+    u16 reason,
+}")).
+Eval vm_compute in ("<<<M918>>>" ++ check (runes_of_ascii "
+packet
+o  {lengthOf
+`two words`,
+f64 asx @lengthOf( float
+    // 50% %s
+    ), } MetaData trueish
+    {
+    string_
+    // packet A { u8 x, }
+    MetaDataX, }
+    packet A
+{ }
+")).
+Eval vm_compute in ("<<<M3482>>>" ++ check (runes_of_ascii "// top
+root // c0a
+  // c0b
+packet // c1a
+  // c1b
+P // c2
+{ // c3a
+  // c3b
+repeat string // c5a
+  // c5b
+ss ,
+    // c7
+repeat u16 // c9
+ns // c10
+,
+    // c11
+} // c12
+")).
+Eval vm_compute in ("<<<M820>>>" ++ check (runes_of_ascii "// 50% %s
+packet _x
+    {@leftPad ( ) zchar[ 3 // @lengthOf(
+] uint8x @lengthOf( Packet
+    // 50% %s
+    ) , float32 calculatedFrom @calculatedFrom(  ""packet"") , }
+")).
+Eval vm_compute in ("<<<M693>>>" ++ check (runes_of_ascii "MetaData
+As
+    // 50% %s
+    { zchar[ 00 ]
+charz // c
+`" ++ [28040; 24687; 31867; 22411]%N ++ runes_of_ascii "` , }options
+    {i8i8=
+    '\x00'  ;	a1
+= string int ='0' ; }MetaData float // " ++ [27880; 37322]%N ++ runes_of_ascii "
+{ int64 _x , }
+")).
+Eval vm_compute in ("<<<M1740>>>" ++ check (runes_of_ascii "options { } packet Packet{char[] i64_ ,
+@tag(
+    255) match
+crc as i8i8{""{,}"" : trueish """" char[] Pad , ""a\\"" :
+Foo ,
+    1 :packetx
+, """ ++ [128512]%N ++ runes_of_ascii """ : trueish , } , }")).
+Eval vm_compute in ("<<<M1793>>>" ++ check (runes_of_ascii "options { } packet Packet{char[] i64_ ,
+@tag(
+    255) match
+crc as i8i8{""{,}"" : trueish """" : Pad , ""a\\"" :
+Foo ,
+    1 :packetx
+, """ ++ [128512]%N ++ runes_of_ascii """ """ ++ [128512]%N ++ runes_of_ascii """ : trueish , } , }")).
+Eval vm_compute in ("<<<M2416>>>" ++ check (runes_of_ascii "
+packet MetaDataX
+{
+    @leftPad
+( // a // b
+'0'
+) i8 u @lengthOf(
+MetaDataX
+    ) `say ""hi""` ,	} MetaData BodyLength {
+    asx
+x_y_z ,
+`" ++ [233]%N ++ runes_of_ascii "` uint64 u128 , }
+")).
+Eval vm_compute in ("<<<M1841>>>" ++ check (runes_of_ascii "options { } packet Packet{char[] i64_ ,
+@tag(
+    255@ ) match
+crc as i8i8{""{,}"" : trueish """" : Pad , ""a\\"" :
+Foo ,
+    1 :packetx
+, """ ++ [128512]%N ++ runes_of_ascii """ : trueish , } , }")).
+Eval vm_compute in ("<<<M1842>>>" ++ check (runes_of_ascii "options { } packet Packet{char[] i64_ ,
+@tag(
+    255) match
+crc as i8i8{""{,}"" : trueish """" : Pad , ""a\\"" :
+Foo ,
+    1 :packetx
+, """ ++ [128512]%N ++ runes_of_ascii """ : trueish , } , '}")).
+Eval vm_compute in ("<<<M1754>>>" ++ check (runes_of_ascii "options { } packet Packet{char[] i64_ ,
+@tag(
+    255) match
+crc as i8i8{""{,}"" : trueish """" : Pad , : ""a\\""
+Foo ,
+    1 :packetx
+, """ ++ [128512]%N ++ runes_of_ascii """ : trueish , } , }")).
+Eval vm_compute in ("<<<M1722>>>" ++ check (runes_of_ascii "options { } packet Packet{char[] i64_ ,
+@tag(
+    255) match
+crc as i8i8{""{,}""  trueish """" : Pad , ""a\\"" :
+Foo ,
+    1 :packetx
+, """ ++ [128512]%N ++ runes_of_ascii """ : trueish , } , }")).
+Eval vm_compute in ("<<<M2425>>>" ++ check (runes_of_ascii "
+packet MetaDataX
+{
+    @leftPad
+( // a // b
+'0'
+) i8 u @lengthOf(
+MetaDataX
+    ) `say ""hi""` ,	} MetaData BodyLength {
+    asx
+x_y_z `" ++ [233]%N ++ runes_of_ascii "`
+, : u128 , }
+")).
+Eval vm_compute in ("<<<M2349>>>" ++ check (runes_of_ascii "
+packet MetaDataX
+{
+    @leftPad
+( // a // b
+'0'
+) i8 u @lengthOf(
+MetaDataX
+    ) u32 ,	} MetaData BodyLength {
+    asx
+x_y_z `" ++ [233]%N ++ runes_of_ascii "`
+, uint64 u128 , }
+")).
+Eval vm_compute in ("<<<M2368>>>" ++ check (runes_of_ascii "
+packet MetaDataX
+{
+    @leftPad
+( // a // b
+'0'
+) i8 u @lengthOf(
+MetaDataX
+    ) `say ""hi""` ,	} MetaData  {
+    asx
+x_y_z `" ++ [233]%N ++ runes_of_ascii "`
+, uint64 u128 , }
+")).
+Eval vm_compute in ("<<<M1507>>>" ++ check (runes_of_ascii "packet calculatedFrom
+{ @calculatedFrom( ""a\\"" ) zchar[ 4294967296 ]
+calculatedFrom@lengthOf( pack )	`100% of %d` ,char[]body@calculatedFrom(")).
+Eval vm_compute in ("<<<M865>>>" ++ check (runes_of_ascii "packet
+leftPad //
+{ }
+MetaData Packet {//x
+char[ 0 //
+]_x
+    , char[ // packet A { u8 x, }
+1 ]
+    float	,
+char[ 0123456789  ] int , }")).
+Eval vm_compute in ("<<<M3887>>>" ++ check (runes_of_ascii "options {
+    zchar = int16;
+    Z9_ = """";
+    rootA = 007;
+    i64_ = ""abc"";
+    msg_type = true
+}
+
+packet Logon {
+    string_ `" ++ [233]%N ++ runes_of_ascii "`,
+}")).
+Eval vm_compute in ("<<<M752>>>" ++ check (runes_of_ascii "  MetaData asx {u16 lengthOf , Z9_ float `two words`, i32
+    // " ++ [128512]%N ++ runes_of_ascii " emoji
+    chars
+`// not a comment` ,i8
+    o `tab	here` ,
+}
+
+")).
+Eval vm_compute in ("<<<M3260>>>" ++ check (runes_of_ascii "// c
+MetaData metadata { } MetaData rootA { i8 i64_ , roots options1 `a\` , lengthOf Header , Z9_ Foo , int16 BodyLength , }")).
+Eval vm_compute in ("<<<M3293>>>" ++ check (runes_of_ascii "MetaData metadata { } MetaData rootA { i8 i64_ , roots options1 `a\` , lengthOf Header
+// c
+, Z9_ Foo , int16 BodyLength , }")).
+Eval vm_compute in ("<<<M3611>>>" ++ check (runes_of_ascii "  packet
+
+int{ char[
+1
+
+]metadata
+
+    @lengthOf(// c
+	MetaDataX
+    ) `tab	here`
+
+,
+
+repeat body	msg_type
+
+    ,
+} ")).
+Eval vm_compute in ("<<<M347>>>" ++ check (runes_of_ascii "options
+{ chars= false
+MetaDataX =42
+; BodyLength=	zchar[3 ]
+    ; } MetaData Foo {
+    stringy int
+    `doc` , }
+")).
+Eval vm_compute in ("<<<M1011>>>" ++ check (runes_of_ascii "packet  matchKey{} packet int // " ++ [27880; 37322]%N ++ runes_of_ascii "
+{
+    } MetaData As  {int16 metadata `100% of %d`,
+    } // trailing space ")).
+Eval vm_compute in ("<<<M3332>>>" ++ check (runes_of_ascii "MetaData float { uint8 BodyLength , } MetaData // c
+charz { float32 trueish `a\` , i16 metadata `say ""hi""` , }")).
+Eval vm_compute in ("<<<M1766>>>" ++ check (runes_of_ascii "options { } packet Packet{char[] i64_ ,
+@tag(
+    255) match
+crc as i8i8{""{,}"" : trueish """" : Pad , ""a\\"" :")).
+Eval vm_compute in ("<<<M3473>>>" ++ check (runes_of_ascii "options {
+    LittleEndian = true;
+}
+root packet P {
+    u16 a,
+    u32 Sum @calculatedFrom(""CR\
+C32""),
+}
+")).
+Eval vm_compute in ("<<<M3073>>>" ++ check (runes_of_ascii "packet A {
+    B b `100% of %s %d %v`,
+    B `100% of %s %d %v`,
+    repeat B bs `100% of %s %d %v`,
+}")).
+Eval vm_compute in ("<<<M1477>>>" ++ check (runes_of_ascii "packet calculatedFrom
+{ @calculatedFrom( ""a\\"" ) zchar[ 4294967296 ]
+calculatedFrom@lengthOf( pack")).
+Eval vm_compute in ("<<<M605>>>" ++ check (runes_of_ascii "
+root packet uint8x { } root
+packet float
+// trailing space 
+// c
+{ char[]_x
+    , } /// triple")).
+Eval vm_compute in ("<<<M1472>>>" ++ check (runes_of_ascii "packet calculatedFrom
+{ @calculatedFrom( ""a\\"" ) zchar[ 4294967296 ]
+calculatedFrom@lengthOf(")).
+Eval vm_compute in ("<<<M4277>>>" ++ check (runes_of_ascii "
+
+  //	t
+
+options
+
+{  chars	=
+    ' '
+
+    a1 =false  x
+
+    =	i32 ;
+msg_type =  ""1"" } ")).
+Eval vm_compute in ("<<<M3673>>>" ++ check (runes_of_ascii "
+MetaData  u128
+    { f64 Foo
+
+,
+	}  MetaData calculatedFrom{
+i32
+	len 
+
+// " ++ [27880; 37322]%N ++ runes_of_ascii "
+
+	,
+    }
+")).
+Eval vm_compute in ("<<<M2222>>>" ++ check (runes_of_ascii "MetaData _x )string x `// not a comment` , string
+i64_ // trailing space 
+`a\` ,
+    }
+")).
+Eval vm_compute in ("<<<M4067>>>" ++ check (runes_of_ascii "MetaData _x {
+    f64 charz `tab	here`,
+}
+
+options {
+    // c
+    BodyLength = """ ++ [233]%N ++ runes_of_ascii "t" ++ [233]%N ++ runes_of_ascii """;
+}")).
+Eval vm_compute in ("<<<M2213>>>" ++ check (runes_of_ascii "pack _x {string x `// not a comment` , string
+i64_ // trailing space 
+`a\` ,
+    }
+")).
+Eval vm_compute in ("<<<M2959>>>" ++ check (runes_of_ascii "packet A {
   match k as n {
-    [1, 22, 007, 4, 5, 66, 7, 8] : B
+    [1, 22, 007, 4, 5, 66, 7, 8] : B,
     2 : C
   },
 }")).
-Eval vm_compute in ("<<<M1238>>>" ++ check (runes_of_ascii "packet o { @tag( 42 ) repeat x { char[ 0123456789 ] i64_ , } , // c
-} options { }")).
-Eval vm_compute in ("<<<M1341>>>" ++ check (runes_of_ascii "packet Inner {
-    u8 a,
-}
-root packet P {
-    repeat Inner items,
-    u8 x,
-}
-")).
-Eval vm_compute in ("<<<M332>>>" ++ check (runes_of_ascii "options
-    { packetx =
-    ' ' ;}options {	falsey =
-// " ++ [128512]%N ++ runes_of_ascii " emoji
-// c
-00 ; }")).
-Eval vm_compute in ("<<<M146>>>" ++ check (runes_of_ascii "// `tick` ""quote"" 'q'
-options { leftPad =float32
-} root
-packet o
-{ }
-")).
-Eval vm_compute in ("<<<M1320>>>" ++ check (runes_of_ascii "MetaData _x { zchar[ 4294967296 ]
-// c
-lengthOf `// not a comment` , }")).
-Eval vm_compute in ("<<<M941>>>" ++ check (runes_of_ascii "packet A {
+Eval vm_compute in ("<<<M2930>>>" ++ check (runes_of_ascii "packet A {
+  match k as n {
+    [""a"", ""bb"", 007, ""d"", ""e""] : B,
+    2 : C
+  },
+}")).
+Eval vm_compute in ("<<<M3649>>>" ++ check (runes_of_ascii "packet A {
     B b `a
-
-b`,
+    b`,
     B `a
-
-b`,
+    b`,
     repeat B bs `a
+    b`,
+}")).
+Eval vm_compute in ("<<<M3365>>>" ++ check (runes_of_ascii "MetaData
+// c
+_x { f64 charz `tab	here` , } options { BodyLength = """ ++ [233]%N ++ runes_of_ascii "t" ++ [233]%N ++ runes_of_ascii """ ; }")).
+Eval vm_compute in ("<<<M905>>>" ++ check (runes_of_ascii "MetaData MetaDataX {
+zchar[ 0
+]
+T `tab	here` ,
+    Foo options1 `it's` , }")).
+Eval vm_compute in ("<<<M2914>>>" ++ check (runes_of_ascii "packet A {
+  match k as n {
+    [""a"", 22, ""c c"", 4] : B
+    2 : C
+  },
+}")).
+Eval vm_compute in ("<<<M387>>>" ++ check (runes_of_ascii "packet msg_type { }packet
+/// triple
+// packet A { u8 x, }
+u
+    { }
+")).
+Eval vm_compute in ("<<<M3411>>>" ++ check (runes_of_ascii "packet o { @tag( 4294967296
+// c
+) options1 @lengthOf( u8x ) `" ++ [233]%N ++ runes_of_ascii "` , }")).
+Eval vm_compute in ("<<<M3929>>>" ++ check (runes_of_ascii "//	t
+MetaData
 
-b`,
+    charz 
+{Packet BodyLength 
+`line1
+line2` , } ")).
+Eval vm_compute in ("<<<M3971>>>" ++ check (runes_of_ascii "root packet P {
+    repeat char cs,
+    u8 x,
+    // c10
+}
+// c11")).
+Eval vm_compute in ("<<<M76>>>" ++ check (runes_of_ascii "  MetaData u{ i64 pack//
+`{ , }` ,T tag `" ++ [28040; 24687; 31867; 22411]%N ++ runes_of_ascii "`
+,  crc int,
 }")).
-Eval vm_compute in ("<<<M938>>>" ++ check (runes_of_ascii "MetaData M {
-    u8 x `a
-    b
-  c`,
-    T t `a
-    b
-  c`,
-}")).
-Eval vm_compute in ("<<<M1096>>>" ++ check (runes_of_ascii "packet A {
+Eval vm_compute in ("<<<M2684>>>" ++ check (runes_of_ascii "options { a = true; b = false; c = '0'; d = ""s""; e = 007; }")).
+Eval vm_compute in ("<<<M3225>>>" ++ check (runes_of_ascii "packet A {
     match k as n {
         1 : B,// c
     },
 }")).
-Eval vm_compute in ("<<<M195>>>" ++ check (runes_of_ascii "root
+Eval vm_compute in ("<<<M1691>>>" ++ check (runes_of_ascii "options { } packet Packet{char[] i64_ ,
+@tag(
+    255")).
+Eval vm_compute in ("<<<M2774>>>" ++ check (runes_of_ascii "[ ; ] `a\` rootA false MetaData ( string uint64 as [")).
+Eval vm_compute in ("<<<M3207>>>" ++ check (runes_of_ascii "packet A { u8 x, } // a
+// b
+packet B {} // c
+// d")).
+Eval vm_compute in ("<<<M983>>>" ++ check (runes_of_ascii "//
 packet
-// packet A { u8 x, }
-//	t
-Z9_ {
-}
+    metadata {
+} // packet A { u8 x, }")).
+Eval vm_compute in ("<<<M2306>>>" ++ check (runes_of_ascii "
+MetaData Pad{
+= rootA `line1
+line2` ,
+    }
 ")).
-Eval vm_compute in ("<<<M1121>>>" ++ check (runes_of_ascii "MetaData zchar { zchar[ 3 ] Pad , }
-// c
-")).
-Eval vm_compute in ("<<<M1066>>>" ++ check (runes_of_ascii "packet A {    u8 x, // c    u8 y,}")).
-Eval vm_compute in ("<<<M1576>>>" ++ check (runes_of_ascii "packet A {
-    u8 x `d x`,// c x
-}")).
-Eval vm_compute in ("<<<M268>>>" ++ check (runes_of_ascii "options { // " ++ [27880; 37322]%N ++ runes_of_ascii "
-T
-=int64  }
-")).
-Eval vm_compute in ("<<<M1765>>>" ++ check (runes_of_ascii "options
-{u8x
+Eval vm_compute in ("<<<M2750>>>" ++ check (runes_of_ascii "@calculatedFrom( ; u64 @tag( @tag( 1 u32 i32")).
+Eval vm_compute in ("<<<M3436>>>" ++ check (runes_of_ascii "root
+    packet
+P
+{
 
-= // c
-  3	} ")).
-Eval vm_compute in ("<<<M1186>>>" ++ check (runes_of_ascii "options
-// c
-{ u8x = 3 }")).
-Eval vm_compute in ("<<<M1068>>>" ++ check (runes_of_ascii "// a// bpacket A {}")).
-Eval vm_compute in ("<<<M995>>>" ++ check (runes_of_ascii "packet A {
+char c ,u8 x
+
+, 
+} ")).
+Eval vm_compute in ("<<<M3233>>>" ++ check (runes_of_ascii "MetaData // c
+zchar { zchar[ 3 ] Pad , }")).
+Eval vm_compute in ("<<<M2772>>>" ++ check ([26; 1914; 65533]%N ++ runes_of_ascii "a" ++ [65533; 65533; 0; 65533; 65533]%N ++ runes_of_ascii "gf" ++ [65533]%N ++ runes_of_ascii "6Q" ++ [65533]%N ++ runes_of_ascii "(O" ++ [65533; 65533; 65533]%N ++ runes_of_ascii "o" ++ [661; 65533]%N ++ runes_of_ascii "g" ++ [65533]%N ++ runes_of_ascii "!?*x" ++ [65533]%N ++ runes_of_ascii "/e" ++ [65533; 65533; 65533; 65533]%N ++ runes_of_ascii "sI")).
+Eval vm_compute in ("<<<M2624>>>" ++ check (runes_of_ascii "packet A { match k as n { 1 : B }, }")).
+Eval vm_compute in ("<<<M2784>>>" ++ check (runes_of_ascii "6" ++ [65533; 65533]%N ++ runes_of_ascii "m" ++ [65533; 65533]%N ++ runes_of_ascii "j" ++ [65533]%N ++ runes_of_ascii "O" ++ [65533; 65533; 65533; 65533]%N ++ runes_of_ascii "88" ++ [16; 65533; 29]%N ++ runes_of_ascii "]" ++ [65533; 65533; 65533]%N ++ runes_of_ascii "A" ++ [65533; 3]%N ++ runes_of_ascii "-" ++ [65533]%N ++ runes_of_ascii "mGQ2p" ++ [26; 65533]%N ++ runes_of_ascii "b")).
+Eval vm_compute in ("<<<M615>>>" ++ check (runes_of_ascii "options
+    { trueish= ' '
+    }
+")).
+Eval vm_compute in ("<<<M3171>>>" ++ check (runes_of_ascii "packet A {
+ u8 x `d 	`, // c 	
+}")).
+Eval vm_compute in ("<<<M3161>>>" ++ check (runes_of_ascii "packet A {
+ u8 x `d" ++ [11]%N ++ runes_of_ascii "`, // c" ++ [11]%N ++ runes_of_ascii "
+}")).
+Eval vm_compute in ("<<<M3930>>>" ++ check (runes_of_ascii "options	{ Z9_
+
+='\x00'
+
+;
+}")).
+Eval vm_compute in ("<<<M1666>>>" ++ check (runes_of_ascii "options { } packet Packet{")).
+Eval vm_compute in ("<<<M3618>>>" ++ check (runes_of_ascii "options {
+    asx = u8;
+}")).
+Eval vm_compute in ("<<<M2612>>>" ++ check (runes_of_ascii "packet A { x @tag(1), }")).
+Eval vm_compute in ("<<<M4466>>>" ++ check (runes_of_ascii "packet A {
+    x y,
+}")).
+Eval vm_compute in ("<<<M2593>>>" ++ check (runes_of_ascii "packet A { x `d`, }")).
+Eval vm_compute in ("<<<M3125>>>" ++ check (runes_of_ascii "// c" ++ [5760]%N ++ runes_of_ascii "
+packet A {
+}")).
+Eval vm_compute in ("<<<M4404>>>" ++ check (runes_of_ascii "// trailing space ")).
+Eval vm_compute in ("<<<M3182>>>" ++ check (runes_of_ascii "packet A {
+}// c" ++ [6158]%N)).
+Eval vm_compute in ("<<<M3199>>>" ++ check (runes_of_ascii "packet A {
 }
-// c" ++ [5760]%N)).
-Eval vm_compute in ("<<<M759>>>" ++ check (runes_of_ascii "root 007 ; repeat")).
-Eval vm_compute in ("<<<M748>>>" ++ check ([28; 65533; 65533]%N ++ runes_of_ascii "`" ++ [65533; 65533; 65533; 65533; 31; 65533]%N ++ runes_of_ascii "1" ++ [65533; 65533]%N)).
-Eval vm_compute in ("<<<M994>>>" ++ check (runes_of_ascii "// c" ++ [5760]%N)).
+
+
+")).
+Eval vm_compute in ("<<<M460>>>" ++ check (runes_of_ascii "
+ // 50% %s")).
+Eval vm_compute in ("<<<M2506>>>" ++ check (runes_of_ascii "@lengthOf(")).
+Eval vm_compute in ("<<<M2769>>>" ++ check (runes_of_ascii ".(UGDrbX")).
+Eval vm_compute in ("<<<M2271>>>" ++ check (runes_of_ascii "MetaDa")).
+Eval vm_compute in ("<<<M2504>>>" ++ check (runes_of_ascii "@left")).
+Eval vm_compute in ("<<<M2467>>>" ++ check (runes_of_ascii "true")).
+Eval vm_compute in ("<<<M2490>>>" ++ check (runes_of_ascii "'0'")).
+Eval vm_compute in ("<<<M2495>>>" ++ check (runes_of_ascii "''")).
+Eval vm_compute in ("<<<M2693>>>" ++ check (runes_of_ascii "}")).
